@@ -21,6 +21,12 @@ Proof. unfold upd. now rewrite N.eqb_refl. Qed.
 Lemma upd_other {A} (f : N -> A) k x q : q <> k -> upd f k x q = f q.
 Proof. unfold upd. intros H. destruct (N.eqb_spec q k); [contradiction|reflexivity]. Qed.
 
+Definition cur_of_curm (o : option ver) : ver := match o with Some c => c | None => NOVER end.
+Lemma cur_of_curm_of k : cur_of_curm (curm_of k) = k.
+Proof. unfold curm_of. destruct (N.eqb_spec k NOVER); simpl; congruence. Qed.
+Lemma cur_restore_curm v w d : v_curm_fix v = true -> cur (restore_curm v w d) = cur_of_curm (s_curm d).
+Proof. unfold restore_curm. intros ->. destruct (s_curm d); reflexivity. Qed.
+
 Lemma file_eqb_refl f : file_eqb f f = true.
 Proof. destruct f; simpl; rewrite ?N.eqb_refl; reflexivity. Qed.
 Lemma ofile_eqb_refl f : ofile_eqb f f = true.
@@ -55,6 +61,11 @@ Definition frame4 (w : world) :=
 Lemma frame_frame4 w w' : frame w' = frame w -> frame4 w' = frame4 w.
 Proof. unfold frame, frame4. intros H. injection H as -> -> -> -> _ _. reflexivity. Qed.
 
+Definition kx (w : world) := (g_fs0 w, g_clean w).
+
+Lemma kx_of_frame w w' : frame w' = frame w -> kx w' = kx w.
+Proof. unfold frame, kx. intros H. injection H as _ _ _ _ -> ->. reflexivity. Qed.
+
 Lemma frame_set_phase w ph : frame (set_phase w ph) = frame w.
 Proof. unfold set_phase, frame. destruct (jr w) eqn:E; simpl; rewrite ?E; reflexivity. Qed.
 Lemma frame_set_fs w f : frame (set_fs w f) = frame w. Proof. reflexivity. Qed.
@@ -71,6 +82,8 @@ Proof. unfold set_phase. destruct (jr w) eqn:E; reflexivity. Qed.
 Lemma fs_restore_curm v w d : fs (restore_curm v w d) = fs w.
 Proof. unfold restore_curm. destruct (v_curm_fix v); [destruct (s_curm d)|]; reflexivity. Qed.
 Lemma fs_restore_ginst w : fs (restore_ginst w) = fs w.
+Proof. unfold restore_ginst. destruct (g_base w) as [[[[] ?] ?]|] eqn:E; reflexivity. Qed.
+Lemma cur_restore_ginst w : cur (restore_ginst w) = cur w.
 Proof. unfold restore_ginst. destruct (g_base w) as [[[[] ?] ?]|] eqn:E; reflexivity. Qed.
 Lemma obst_set_phase w ph : obst (set_phase w ph) = obst w.
 Proof. unfold set_phase. destruct (jr w) eqn:E; reflexivity. Qed.
@@ -278,12 +291,13 @@ Definition snap_ok (v : variant) (w : world) (base : list (path * option file)) 
   exists d nv es,
     option_map j_from (jr w) = Some vi /\ snaps w vi = Some d /\ s_meta d = Some (nv, es) /\
     entries_ok v (s_bak d) es base /\ functional base /\
-    (v_curm_fix v = true -> s_curm d = Some vi).
+    (v_curm_fix v = true -> s_curm d = curm_of vi).
 
 Definition Inv (v : variant) (w : world) : Prop :=
   match g_base w with
   | Some (true, base, _) => exists fr, snap_ok v w base fr
-  | _ => True
+  | Some (false, _, _) => option_map j_phase (jr w) = Some PStarted   (* nothing modified yet *)
+  | None => jr w = None
   end.
 
 Lemma snap_ok_frame4 v w w' base vi : frame4 w' = frame4 w -> snap_ok v w base vi -> snap_ok v w' base vi.
@@ -294,12 +308,18 @@ Qed.
 Lemma snap_ok_frame v w w' base vi : frame w' = frame w -> snap_ok v w base vi -> snap_ok v w' base vi.
 Proof. intros H. apply snap_ok_frame4. now apply frame_frame4. Qed.
 
-Lemma Inv_frame4 v w w' : frame4 w' = frame4 w -> Inv v w -> Inv v w'.
+(* Inv survives anything that keeps the frame, provided the journal is untouched or a snapshot is recorded *)
+Lemma Inv_frame4 v w w' : frame4 w' = frame4 w ->
+  (jr w' = jr w \/ exists b gi, g_base w = Some (true, b, gi)) -> Inv v w -> Inv v w'.
 Proof.
-  unfold Inv. intros Hf. assert (g_base w' = g_base w) by (unfold frame4 in Hf; now injection Hf).
-  rewrite H. destruct (g_base w) as [[[[] base] vi]|]; auto. intros [fr Hs]. exists fr. now apply (snap_ok_frame4 v w w').
+  unfold Inv. intros Hf Hj. assert (Hg : g_base w' = g_base w) by (unfold frame4 in Hf; now injection Hf).
+  rewrite Hg. destruct (g_base w) as [[[[] base] vi]|] eqn:Eg.
+  - intros [fr Hs]. exists fr. now apply (snap_ok_frame4 v w w').
+  - destruct Hj as [->|(b & gi & Hb)]; [auto|discriminate].
+  - destruct Hj as [->|(b & gi & Hb)]; [auto|discriminate].
 Qed.
-Lemma Inv_frame v w w' : frame w' = frame w -> Inv v w -> Inv v w'.
+Lemma Inv_frame v w w' : frame w' = frame w ->
+  (jr w' = jr w \/ exists b gi, g_base w = Some (true, b, gi)) -> Inv v w -> Inv v w'.
 Proof. intros H. apply Inv_frame4. now apply frame_frame4. Qed.
 
 (* ------------------------------------------------------------------ rollback *)
@@ -308,6 +328,7 @@ Lemma rollback_frame v F w w' r :
 Proof.
   unfold rollback_flow. intros H.
   destruct (jr w) as [j|] eqn:Ej; [|now inv H].
+  destruct (v_stale_fix v && phase_started (j_phase j)); [now inv H|].
   destruct (snaps w (j_from j)) as [d|]; [|now inv H].
   destruct (s_meta d) as [[nv es]|]; [|now inv H].
   destruct (seq_oc _); try (now inv H).
@@ -327,6 +348,7 @@ Proof.
   intros (d & nv & es & H1 & H2 & H3 & [E1 E2] & Hfun & Hc) H.
   unfold rollback_flow in H.
   destruct (jr w) as [j|] eqn:Ej; [|discriminate]. simpl in H1. inv H1.
+  destruct (v_stale_fix v && phase_started (j_phase j)); [discriminate|].
   rewrite H2, H3 in H.
   destruct (seq_oc _); try discriminate.
   destruct (restore_loop _ _ _) as [w2 ok] eqn:Er.
@@ -337,8 +359,7 @@ Proof.
   assert (Hfs : forall p f, In (p, f) base -> fs w2 p = normf v f).
   { intros p f Hin. destruct (E2 p f Hin) as (e & He & <-). apply R1; [now apply in_rev in He|assumption]. }
   assert (Hcur : v_curm_fix v = true -> cur (restore_ginst (restore_curm v w2 d)) = j_from j).
-  { intros Hv. unfold restore_curm. rewrite Hv, (Hc Hv). unfold restore_ginst.
-    destruct (g_base _) as [[[[] ?] ?]|]; reflexivity. }
+  { intros Hv. rewrite cur_restore_ginst, (cur_restore_curm _ _ _ Hv), (Hc Hv). apply cur_of_curm_of. }
   destruct (if nv then vpp_seq F 10 else OGo); try discriminate.
   destruct (seq_oc _); try discriminate.
   destruct (f_hr F); inv H.
@@ -346,13 +367,6 @@ Proof.
 Qed.
 
 (* ------------------------------------------------------------------ apply *)
-Lemma mon_restored_ok w base vi :
-  g_base w = Some (true, base, vi) -> (forall p f, In (p, f) base -> fs w p = f) -> mon_restored w = MonOk.
-Proof.
-  unfold mon_restored. intros Hg H. rewrite Hg.
-  assert (forallb (fun pf => ofile_eqb (fs w (fst pf)) (snd pf)) base = true) as ->; [|reflexivity].
-  apply forallb_forall. intros [p f] Hin. simpl. rewrite (H p f Hin). apply ofile_eqb_refl.
-Qed.
 
 Lemma gbase_of_frame w w' : frame w' = frame w -> g_base w' = g_base w.
 Proof. unfold frame. intros H. now injection H. Qed.
@@ -443,74 +457,31 @@ Proof.
   - unfold prune, w9. simpl. rewrite ginst_set_phase. reflexivity.
 Qed.
 
-Lemma do_snapshot_spec v w from arts w1 ok :
-  do_snapshot v w from arts = (w1, ok) ->
-  jr w1 = jr w /\ fs w1 = fs w /\ cur w1 = cur w /\ obst w1 = obst w /\ g_inst w1 = g_inst w /\
-  g_base w1 = g_base w /\
-  (ok = true -> exists d nv es, snaps w1 from = Some d /\ s_meta d = Some (nv, es) /\
-                 entries_ok v (s_bak d) es (base_of w arts) /\
-                 (v_curm_fix v = true -> s_curm d = Some (cur w))).
-Proof.
-  unfold do_snapshot. intros H.
-  destruct (snap_loop _ _ _ _) as [b [l|]] eqn:E; inv H; splits; try reflexivity; try discriminate.
-  intros _. simpl. rewrite upd_same. do 3 eexists. splits; try reflexivity.
-  - simpl. eapply snap_loop_ok. exact E.
-  - simpl. intros ->. reflexivity.
-Qed.
-
-Definition apply_post (v : variant) (T : tarball) (w w' : world) (r : res) : Prop :=
-  Inv v w' /\
+(* ---- stage 6 onwards ---- *)
+Definition as_post (v : variant) (T : tarball) (base : list (path * option file)) (jf : ver)
+           (w2 w' : world) (r : res) : Prop :=
+  (exists fr, snap_ok v w' base fr) /\ g_base w' = g_base w2 /\
   (r = ROk -> (forall a, In a (t_arts T) -> exists mm, new_mode (a_mode a) = Some mm /\
                           fs w' (a_path a) = Some (Reg (a_content a) mm)) /\
               cur w' = t_to T /\ g_inst w' = t_to T /\
               option_map j_phase (jr w') = Some PCompleted) /\
-  (r = RErrRolledBack -> g_base w' = Some (true, base_of w (t_arts T), cur w) /\
-                         (forall p f, In (p, f) (base_of w (t_arts T)) -> fs w' p = normf v f) /\
-                         (v_curm_fix v = true -> cur w' = cur w)) /\
-  (r = RErr -> fs w' = fs w /\ cur w' = cur w) /\
-  (forall b gi, g_base w' = Some (true, b, gi) -> b = base_of w (t_arts T) /\ gi = cur w).
+  (r = RErrRolledBack -> (forall p f, In (p, f) base -> fs w' p = normf v f) /\
+                         (v_curm_fix v = true -> cur w' = jf)) /\
+  (r = RErr -> fs w' = fs w2 /\ cur w' = cur w2).
 
-Lemma apply_flow_spec v T F w w' r :
-  apply_flow v T F w = (w', r) -> NoDup (map a_path (t_arts T)) -> apply_post v T w w' r.
+Lemma after_snapshot_spec v T F jf w2 w' r base gi :
+  after_snapshot v T F jf w2 = (w', r) -> NoDup (map a_path (t_arts T)) ->
+  g_base w2 = Some (true, base, gi) -> snap_ok v w2 base jf -> as_post v T base jf w2 w' r.
 Proof.
-  unfold apply_flow. intros H Hnd.
-  set (base := base_of w (t_arts T)) in *.
-  set (w0 := set_gfs0 _ _ _) in H.
-  assert (Htriv : forall wx rr, g_base wx = Some (false, base, cur w) -> rr = RCrash \/ (rr = RErr /\ fs wx = fs w /\ cur wx = cur w) ->
-                                apply_post v T w wx rr).
-  { intros wx rr Hg Hr. unfold apply_post, Inv. rewrite Hg. splits; auto.
+  unfold after_snapshot. intros H Hnd Hg2 Hs2.
+  assert (Hmid : forall wx rr, frame wx = frame w2 -> rr = RCrash \/ (rr = RErr /\ fs wx = fs w2 /\ cur wx = cur w2) ->
+                               as_post v T base jf w2 wx rr).
+  { intros wx rr Hf Hr. unfold as_post. splits.
+    - exists jf. eapply snap_ok_frame; eauto.
+    - now apply gbase_of_frame.
     - intros ->. destruct Hr as [|[? _]]; discriminate.
     - intros ->. destruct Hr as [|[? _]]; discriminate.
-    - intros ->. destruct Hr as [|[_ ?]]; [discriminate|assumption].
-    - intros b gi Hb. try rewrite Hg in Hb. discriminate. }
-  destruct (crash_at F 25); [inv H; apply Htriv; auto|].
-  destruct (do_snapshot v w0 (cur w) (t_arts T)) as [w1 ok] eqn:Es.
-  apply do_snapshot_spec in Es as (S1 & S2 & S3 & S4 & S5 & S6 & S7).
-  destruct ok; simpl in H.
-  2:{ inv H. apply Htriv; [rewrite S6; reflexivity|right; splits; auto]. }
-  destruct (S7 eq_refl) as (d & nv & es & D1 & D2 & D3 & D4). clear S7.
-  set (w2 := set_phase (set_gbase w1 _) PSnapshotDone) in H.
-  assert (Hs2 : snap_ok v w2 base (cur w)).
-  { exists d, nv, es. unfold w2. splits.
-    - unfold set_phase. simpl. rewrite S1. reflexivity.
-    - unfold set_phase. simpl. rewrite S1. simpl. exact D1.
-    - exact D2.
-    - exact D3.
-    - apply base_of_functional.
-    - exact D4. }
-  assert (Hg2 : g_base w2 = Some (true, base, cur w)).
-  { unfold w2, set_phase. simpl. rewrite S1. reflexivity. }
-  assert (Hfs2 : fs w2 = fs w /\ cur w2 = cur w).
-  { unfold w2. rewrite fs_set_phase, cur_set_phase. simpl. split; assumption. }
-  assert (Hmid : forall wx rr, frame wx = frame w2 -> rr = RCrash \/ (rr = RErr /\ fs wx = fs w /\ cur wx = cur w) ->
-                               apply_post v T w wx rr).
-  { intros wx rr Hf Hr. unfold apply_post, Inv. rewrite (gbase_of_frame _ _ Hf), Hg2. splits.
-    - exists (cur w). eapply snap_ok_frame; eauto.
-    - intros ->. destruct Hr as [|[? _]]; discriminate.
-    - intros ->. destruct Hr as [|[? _]]; discriminate.
-    - intros ->. destruct Hr as [|[_ ?]]; [discriminate|assumption].
-    - intros b gi Hb. try rewrite (gbase_of_frame _ _ Hf), Hg2 in Hb. now inv Hb. }
-  destruct Hfs2 as [Hfs2 Hcur2].
+    - intros ->. destruct Hr as [|[_ ?]]; [discriminate|assumption]. }
   destruct (crash_at F 26); [inv H; apply Hmid; auto|].
   destruct (t_hook_ok T); simpl in H; [|inv H; apply Hmid; auto].
   destruct (seq_oc _);
@@ -525,26 +496,183 @@ Proof.
   rewrite frame_set_obst, !frame_set_phase in F7.
   destruct sok; simpl in H.
   - apply swap_loop_ok in Esw as [Sw1 Sw2]; [|assumption].
-    apply (post_swap_spec v T F (cur w) w7 w' r base (cur w)) in H.
-    + destruct H as (P1 & P2 & P3 & P4 & P5). unfold apply_post. splits; auto.
+    apply (post_swap_spec v T F jf w7 w' r base gi) in H.
+    + destruct H as (P1 & P2 & P3 & P4 & P5). unfold as_post. splits; auto.
+      * unfold Inv in P1. rewrite P2, (gbase_of_frame _ _ F7), Hg2 in P1. exact P1.
+      * rewrite P2. now apply gbase_of_frame.
       * intros Hr. destruct (P4 Hr) as (Q1 & Q2 & Q3 & Q4). splits; auto.
         intros a Ha. rewrite Q1. now apply Sw1.
-      * intros Hr. destruct (P5 Hr) as (Q1 & Q2). splits; auto.
-        rewrite P2, (gbase_of_frame _ _ F7). exact Hg2.
       * intros Hr. contradiction.
-      * intros b gi Hb. rewrite P2, (gbase_of_frame _ _ F7), Hg2 in Hb. now inv Hb.
     + rewrite (gbase_of_frame _ _ F7). exact Hg2.
     + eapply snap_ok_frame; eauto.
   - destruct (crash_at F 51); [inv H; apply Hmid; auto|].
-    destruct (auto_rollback_spec v F _ w' r base (cur w) H) as (A1 & A2 & A3 & A4).
+    destruct (auto_rollback_spec v F _ w' r base jf H) as (A1 & A2 & A3 & A4).
     { eapply snap_ok_frame; [|exact Hs2]. now rewrite frame_set_phase. }
     rewrite frame_set_phase in A1.
-    unfold apply_post, Inv. rewrite (gbase_of_frame _ _ A1), (gbase_of_frame _ _ F7), Hg2. splits.
-    + exists (cur w). eapply snap_ok_frame; [|exact Hs2]. congruence.
+    unfold as_post. splits.
+    + exists jf. eapply snap_ok_frame; [|exact Hs2]. congruence.
+    + apply gbase_of_frame. congruence.
     + intros Hr; contradiction.
     + intros Hr. destruct (A4 Hr). splits; eauto.
     + intros Hr; contradiction.
-    + intros b gi Hb. now inv Hb.
+Qed.
+
+(* ---- the whole apply, relative to a baseline (base, bv) and the snapshot key jf ---- *)
+Definition apply_post (v : variant) (T : tarball) (base : list (path * option file)) (bv jf : ver)
+           (w w' : world) (r : res) : Prop :=
+  Inv v w' /\
+  (r = ROk -> (forall a, In a (t_arts T) -> exists mm, new_mode (a_mode a) = Some mm /\
+                          fs w' (a_path a) = Some (Reg (a_content a) mm)) /\
+              cur w' = t_to T /\ g_inst w' = t_to T /\
+              option_map j_phase (jr w') = Some PCompleted) /\
+  (r = RErrRolledBack -> g_base w' = Some (true, base, bv) /\
+                         (forall p f, In (p, f) base -> fs w' p = normf v f) /\
+                         (v_curm_fix v = true -> cur w' = jf)) /\
+  (r = RErr -> fs w' = fs w /\ cur w' = cur w) /\
+  (forall b gi, g_base w' = Some (true, b, gi) -> b = base /\ gi = bv).
+
+Lemma as_post_apply_post v T base bv jf w w2 w' r :
+  as_post v T base jf w2 w' r -> g_base w2 = Some (true, base, bv) -> fs w2 = fs w -> cur w2 = cur w ->
+  apply_post v T base bv jf w w' r.
+Proof.
+  intros (A1 & A2 & A3 & A4 & A5) Hg Hf Hc. unfold apply_post, Inv. rewrite A2, Hg.
+  split; [exact A1|]. split; [exact A3|]. split; [|split].
+  - intros Hr. destruct (A4 Hr). splits; auto.
+  - intros Hr. destruct (A5 Hr). split; congruence.
+  - intros b gi Hb. now inv Hb.
+Qed.
+
+Lemma do_snapshot_spec v w from arts w1 ok :
+  do_snapshot v w from arts = (w1, ok) ->
+  jr w1 = jr w /\ fs w1 = fs w /\ cur w1 = cur w /\ obst w1 = obst w /\ g_inst w1 = g_inst w /\
+  g_base w1 = g_base w /\
+  (ok = true -> exists d nv es, snaps w1 from = Some d /\ s_meta d = Some (nv, es) /\
+                 entries_ok v (s_bak d) es (base_of w arts) /\
+                 (v_curm_fix v = true -> s_curm d = curm_of (cur w))).
+Proof.
+  unfold do_snapshot. intros H.
+  destruct (snap_loop _ _ _ _) as [b [l|]] eqn:E; inv H; splits; try reflexivity; try discriminate.
+  intros _. simpl. rewrite upd_same. do 3 eexists. splits; try reflexivity.
+  - simpl. eapply snap_loop_ok. exact E.
+  - simpl. intros ->. reflexivity.
+Qed.
+
+Lemma do_snapshot_nocurm_same v w from arts :
+  let w1 := do_snapshot_nocurm v w from arts in
+  jr w1 = jr w /\ fs w1 = fs w /\ cur w1 = cur w /\ g_inst w1 = g_inst w /\ g_base w1 = g_base w /\ kx w1 = kx w.
+Proof.
+  unfold do_snapshot_nocurm. destruct (snap_loop _ _ _ _) as [b [l|]]; simpl; splits; reflexivity.
+Qed.
+
+Lemma fresh_flow_spec v T F w w' r :
+  fresh_flow v T F w = (w', r) -> resume w = false -> NoDup (map a_path (t_arts T)) ->
+  apply_post v T (base_of w (t_arts T)) (cur w) (cur w) w w' r.
+Proof.
+  unfold fresh_flow. intros H Hres Hnd. rewrite Hres in H. simpl in H.
+  set (base := base_of w (t_arts T)) in *.
+  set (w0 := set_gfs0 _ _ _) in H.
+  assert (Htriv : forall wx rr, g_base wx = Some (false, base, cur w) -> option_map j_phase (jr wx) = Some PStarted ->
+      rr = RCrash \/ (rr = RErr /\ fs wx = fs w /\ cur wx = cur w) -> apply_post v T base (cur w) (cur w) w wx rr).
+  { intros wx rr Hg Hp Hr. unfold apply_post, Inv. rewrite Hg. splits; auto.
+    - intros ->. destruct Hr as [|[? _]]; discriminate.
+    - intros ->. destruct Hr as [|[? _]]; discriminate.
+    - intros ->. destruct Hr as [|[_ ?]]; [discriminate|assumption].
+    - intros b gi Hb. discriminate. }
+  destruct (crash_at F 25); [inv H; apply Htriv; auto|].
+  destruct (do_snapshot v w0 (cur w) (t_arts T)) as [w1 ok] eqn:Es.
+  apply do_snapshot_spec in Es as (S1 & S2 & S3 & S4 & S5 & S6 & S7).
+  destruct ok; simpl in H.
+  2:{ inv H. apply Htriv; [rewrite S6; reflexivity|rewrite S1; reflexivity|right; splits; auto]. }
+  destruct (crash_at F 36); simpl in H.
+  { inv H. destruct (do_snapshot_nocurm_same v w0 (cur w) (t_arts T)) as (N1 & N2 & N3 & _ & N5 & _).
+    apply Htriv; [rewrite N5; reflexivity|rewrite N1; reflexivity|auto]. }
+  destruct (S7 eq_refl) as (d & nv & es & D1 & D2 & D3 & D4). clear S7.
+  set (w2 := set_phase (set_gbase w1 _) PSnapshotDone) in H.
+  assert (Hs2 : snap_ok v w2 base (cur w)).
+  { exists d, nv, es. unfold w2. splits.
+    - unfold set_phase. simpl. rewrite S1. reflexivity.
+    - unfold set_phase. simpl. rewrite S1. simpl. exact D1.
+    - exact D2.
+    - exact D3.
+    - apply base_of_functional.
+    - exact D4. }
+  assert (Hg2 : g_base w2 = Some (true, base, cur w)).
+  { unfold w2, set_phase. simpl. rewrite S1. reflexivity. }
+  assert (Hfs2 : fs w2 = fs w /\ cur w2 = cur w).
+  { unfold w2. rewrite fs_set_phase, cur_set_phase. simpl. split; assumption. }
+  destruct Hfs2.
+  eapply as_post_apply_post; eauto. eapply after_snapshot_spec; eauto.
+Qed.
+
+Lemma covered_paths es arts : covered es arts = true ->
+  forall a, In a arts -> In (a_path a) (map e_path es).
+Proof.
+  unfold covered. intros H a Ha. rewrite forallb_forall in H. specialize (H a Ha).
+  apply existsb_exists in H as (e & He & Heq). apply N.eqb_eq in Heq. rewrite <- Heq. now apply in_map.
+Qed.
+
+Lemma keep_flow_spec v T F w w' r j d nv es base bv :
+  keep_flow v T F w j d nv es = (w', r) -> NoDup (map a_path (t_arts T)) ->
+  jr w = Some j -> snaps w (j_from j) = Some d -> s_meta d = Some (nv, es) ->
+  g_base w = Some (true, base, bv) -> snap_ok v w base (j_from j) ->
+  apply_post v T base bv (j_from j) w w' r.
+Proof.
+  unfold keep_flow. intros H Hnd Hj Hd Hm Hg Hs.
+  set (w0 := set_jr w _) in H.
+  assert (Hs0 : snap_ok v w0 base (j_from j)).
+  { destruct Hs as (d0 & nv0 & es0 & H1 & H2 & H3). exists d0, nv0, es0. unfold w0. simpl. auto. }
+  destruct (crash_at F 25).
+  { inv H. unfold apply_post, Inv. simpl. rewrite Hg. splits; try discriminate.
+    - exists (j_from j). exact Hs0.
+    - intros b gi Hb. now inv Hb. }
+  set (w1 := set_snaps w0 _) in H.
+  assert (Hs1 : snap_ok v (set_phase w1 PSnapshotDone) base (j_from j)).
+  { destruct Hs as (d0 & nv0 & es0 & H1 & H2 & H3 & H4 & H5 & H6).
+    rewrite Hd in H2. inv H2. rewrite Hm in H3. inv H3.
+    exists {| s_meta := Some (nv0 || needs_vpp (t_arts T), es0); s_bak := s_bak d0; s_curm := s_curm d0 |},
+           (nv0 || needs_vpp (t_arts T)), es0.
+    unfold set_phase, w1, w0. simpl. rewrite upd_same. splits; auto. }
+  eapply as_post_apply_post.
+  - eapply (after_snapshot_spec v T F (j_from j) _ w' r base bv); eauto.
+  - rewrite (gbase_of_frame _ _ (frame_set_phase _ _)). exact Hg.
+  - rewrite fs_set_phase. reflexivity.
+  - rewrite cur_set_phase. reflexivity.
+Qed.
+
+(* the baseline an apply works against *)
+Definition baseline_of (w : world) (T : tarball) : list (path * option file) * ver :=
+  if resume w then match g_base w with Some (_, b, gi) => (b, gi) | None => (base_of w (t_arts T), cur w) end
+  else (base_of w (t_arts T), cur w).
+Definition snapkey_of (w : world) : ver :=
+  if resume w then match jr w with Some j => j_from j | None => cur w end else cur w.
+
+Lemma resume_Inv v w : Inv v w -> resume w = true ->
+  exists j base bv, jr w = Some j /\ g_base w = Some (true, base, bv) /\ snap_ok v w base (j_from j).
+Proof.
+  unfold Inv, resume. intros Hi Hr. destruct (jr w) as [j|] eqn:Ej; [|discriminate].
+  destruct (g_base w) as [[[[] base] bv]|].
+  - destruct Hi as [fr Hs]. exists j, base, bv. split; [reflexivity|]. split; [reflexivity|].
+    destruct Hs as (d & nv & es & H1 & H2). try rewrite Ej in H1. simpl in H1. inv H1. exists d, nv, es.
+    try rewrite Ej. simpl. auto.
+  - try rewrite Ej in Hi. simpl in Hi. inv Hi. rewrite H0 in Hr. discriminate.
+  - discriminate.
+Qed.
+
+Lemma apply_flow_spec v T F w w' r :
+  v_keep_fix v = true -> Inv v w ->
+  apply_flow v T F w = (w', r) -> NoDup (map a_path (t_arts T)) ->
+  apply_post v T (fst (baseline_of w T)) (snd (baseline_of w T)) (snapkey_of w) w w' r.
+Proof.
+  intros Hk Hi H Hnd. unfold apply_flow in H. rewrite Hk in H. simpl in H.
+  unfold baseline_of, snapkey_of.
+  destruct (resume w) eqn:Hr; [|now apply (fresh_flow_spec v T F)].
+  destruct (resume_Inv _ _ Hi Hr) as (j & base & bv & Hj & Hg & Hs).
+  rewrite Hj in *. rewrite Hg. simpl.
+  pose proof Hs as (d & nv & es & H1 & H2 & H3 & _). rewrite H2, H3 in H.
+  destruct (covered es (t_arts T)) eqn:Hc.
+  - eapply keep_flow_spec; eauto.
+  - inv H. unfold apply_post. rewrite Hg. splits; try discriminate; auto.
+    intros b gi Hb. now inv Hb.
 Qed.
 
 (* ------------------------------------------------------------------ steps and histories *)
@@ -553,12 +681,21 @@ Proof.
   unfold admits. intros H. repeat (apply andb_prop in H as [H ?]). now apply nodupb_NoDup.
 Qed.
 
+(* all four repairs *)
+Definition fixedv (v : variant) : Prop :=
+  v_mode_fix v = true /\ v_curm_fix v = true /\ v_keep_fix v = true /\ v_stale_fix v = true.
+Lemma fixedv_repaired : fixedv repaired.
+Proof. repeat split. Qed.
+
+Definition apply_post_w (v : variant) (T : tarball) (w w' : world) (r : res) : Prop :=
+  apply_post v T (fst (baseline_of w T)) (snd (baseline_of w T)) (snapkey_of w) w w' r.
+
 Lemma apply_spec v T Q F w w' r :
-  apply v T Q F w = (w', r) -> Inv v w ->
-  Inv v w' /\ (admits T Q w = false -> w' = w /\ r = RErr) /\ (admits T Q w = true -> apply_post v T w w' r).
+  v_keep_fix v = true -> apply v T Q F w = (w', r) -> Inv v w ->
+  Inv v w' /\ (admits T Q w = false -> w' = w /\ r = RErr) /\ (admits T Q w = true -> apply_post_w v T w w' r).
 Proof.
-  unfold apply. intros H Hi. destruct (admits T Q w) eqn:Ea.
-  - pose proof (apply_flow_spec _ _ _ _ _ _ H (admits_nodup _ _ _ Ea)) as Hp.
+  unfold apply. intros Hk H Hi. destruct (admits T Q w) eqn:Ea.
+  - pose proof (apply_flow_spec _ _ _ _ _ _ Hk Hi H (admits_nodup _ _ _ Ea)) as Hp.
     splits; [apply Hp|discriminate|auto].
   - inv H. splits; auto. discriminate.
 Qed.
@@ -573,32 +710,53 @@ Proof.
   unfold art_installed. rewrite Hm, Hf. apply ofile_eqb_refl.
 Qed.
 
-Lemma rollback_step_spec v F w w' r :
-  rollback_flow v F w = (w', r) -> Inv v w -> v_mode_fix v = true ->
-  Inv v w' /\ g_base w' = g_base w /\
-  (r = RbOk -> mon_restored w' <> MonMixed /\
-               forall b gi, g_base w = Some (true, b, gi) -> forall p f, In (p, f) b -> fs w' p = f).
+Lemma mon_restored_ok w b0 base vi :
+  g_base w = Some (b0, base, vi) -> (forall p f, In (p, f) base -> fs w p = f) -> mon_restored w = MonOk.
 Proof.
-  intros H Hi Hv. pose proof (rollback_frame _ _ _ _ _ H) as Hf.
-  splits; [eapply Inv_frame; eauto|now apply gbase_of_frame|].
-  intros ->. unfold Inv in Hi.
-  destruct (g_base w) as [[[[] b] gi]|] eqn:Eg.
-  - destruct Hi as [fr Hs]. destruct (rollback_ok_restores _ _ _ _ _ _ Hs H) as [R1 _].
-    assert (R : forall p f, In (p, f) b -> fs w' p = f).
-    { intros p f Hin. rewrite (R1 p f Hin). now apply normf_fixed. }
-    split.
-    + erewrite mon_restored_ok; [discriminate| |exact R]. rewrite (gbase_of_frame _ _ Hf). exact Eg.
-    + intros b0 gi0 Hb. inv Hb. exact R.
-  - split; [|discriminate]. unfold mon_restored. rewrite (gbase_of_frame _ _ Hf), Eg. discriminate.
-  - split; [|discriminate]. unfold mon_restored. rewrite (gbase_of_frame _ _ Hf), Eg. discriminate.
+  unfold mon_restored. intros Hg H. rewrite Hg.
+  assert (forallb (fun pf => ofile_eqb (fs w (fst pf)) (snd pf)) base = true) as ->; [|reflexivity].
+  apply forallb_forall. intros [p f] Hin. simpl. rewrite (H p f Hin). apply ofile_eqb_refl.
+Qed.
+
+(* a rollback that reports success found a completed snapshot of the baseline *)
+Lemma rollback_ok_baseline v F w w' :
+  v_stale_fix v = true -> Inv v w -> rollback_flow v F w = (w', RbOk) ->
+  exists base gi, g_base w = Some (true, base, gi).
+Proof.
+  intros Hst Hi H. unfold Inv in Hi. unfold rollback_flow in H.
+  destruct (jr w) as [j|] eqn:Ej; [|discriminate].
+  destruct (g_base w) as [[[[] base] gi]|]; [eauto| |discriminate].
+  simpl in Hi. inv Hi. rewrite Hst, H1 in H. discriminate.
+Qed.
+
+Lemma rollback_step_spec v F w w' r :
+  rollback_flow v F w = (w', r) -> Inv v w -> v_mode_fix v = true -> v_stale_fix v = true ->
+  Inv v w' /\ g_base w' = g_base w /\
+  (r = RbOk -> exists base gi, g_base w = Some (true, base, gi) /\ forall p f, In (p, f) base -> fs w' p = f).
+Proof.
+  intros H Hi Hv Hst. pose proof (rollback_frame _ _ _ _ _ H) as Hf.
+  assert (Hinv : Inv v w').
+  { destruct (g_base w) as [[[[] b] gi]|] eqn:Eg.
+    - eapply Inv_frame; eauto.
+    - unfold Inv in Hi. rewrite Eg in Hi. unfold rollback_flow in H.
+      destruct (jr w) as [j|] eqn:Ej; [|inv H; unfold Inv; now rewrite Eg, Ej].
+      simpl in Hi. inv Hi. rewrite Hst, H1 in H. simpl in H. inv H. unfold Inv. rewrite Eg, Ej. simpl. now rewrite H1.
+    - unfold Inv in Hi. rewrite Eg in Hi. unfold rollback_flow in H. rewrite Hi in H. inv H.
+      unfold Inv. now rewrite Eg. }
+  splits; [assumption|now apply gbase_of_frame|].
+  intros ->. destruct (rollback_ok_baseline _ _ _ _ Hst Hi H) as (base & gi & Hg).
+  exists base, gi. split; [assumption|].
+  unfold Inv in Hi. rewrite Hg in Hi. destruct Hi as [fr Hs].
+  destruct (rollback_ok_restores _ _ _ _ _ _ Hs H) as [R1 _].
+  intros p f Hin. rewrite (R1 p f Hin). now apply normf_fixed.
 Qed.
 
 Lemma step_spec v w o w' r m :
-  step v w o = (w', (r, m)) -> Inv v w -> v_mode_fix v = true -> Inv v w' /\ m <> MonMixed.
+  fixedv v -> step v w o = (w', (r, m)) -> Inv v w -> Inv v w' /\ m <> MonMixed.
 Proof.
-  intros H Hi Hv. destruct o as [T Q F|F| |p f]; simpl in H.
+  intros (Hv & _ & Hk & Hst) H Hi. destruct o as [T Q F|F| |p f]; simpl in H.
   - destruct (apply v T Q F w) as [w1 r1] eqn:Ea. inv H.
-    destruct (apply_spec _ _ _ _ _ _ _ Ea Hi) as (I1 & I2 & I3). split; [assumption|].
+    destruct (apply_spec _ _ _ _ _ _ _ Hk Ea Hi) as (I1 & I2 & I3). split; [assumption|].
     destruct (admits T Q w) eqn:Ead.
     + destruct (I3 eq_refl) as (P1 & P2 & P3 & P4 & P5).
       destruct r; try discriminate.
@@ -608,91 +766,91 @@ Proof.
         intros p f Hin. rewrite (Q2 p f Hin). now apply normf_fixed.
     + destruct (I2 eq_refl) as [_ ->]. discriminate.
   - destruct (rollback_flow v F w) as [w1 rr] eqn:Er.
-    destruct (rollback_step_spec _ _ _ _ _ Er Hi Hv) as (R1 & R2 & R3).
-    destruct rr; inv H; split; auto; try discriminate. now apply R3.
-  - inv H. split; [|discriminate]. eapply Inv_frame; [|exact Hi]. reflexivity.
-  - inv H. split; [|discriminate]. eapply Inv_frame4; [|exact Hi]. reflexivity.
+    destruct (rollback_step_spec _ _ _ _ _ Er Hi Hv Hst) as (R1 & R2 & R3).
+    destruct rr; inv H; split; auto; try discriminate.
+    destruct (R3 eq_refl) as (base & gi & Hg & Hr).
+    erewrite mon_restored_ok; [discriminate| |exact Hr]. rewrite R2. exact Hg.
+  - inv H. split; [|discriminate]. eapply Inv_frame; [|left|exact Hi]; reflexivity.
+  - inv H. split; [|discriminate]. eapply Inv_frame4; [|left|exact Hi]; reflexivity.
 Qed.
 
-Lemma run_never_mixed v : v_mode_fix v = true -> forall ops w, Inv v w ->
+Lemma run_never_mixed v : fixedv v -> forall ops w, Inv v w ->
   forall w' r m, In (w', (r, m)) (run v w ops) -> m <> MonMixed.
 Proof.
   intros Hv. induction ops as [|o ops IH]; simpl; intros w Hi w' r m Hin; [contradiction|].
   destruct (step v w o) as [w1 [r1 m1]] eqn:Es.
-  destruct (step_spec _ _ _ _ _ _ Es Hi Hv) as [I1 M1].
+  destruct (step_spec _ _ _ _ _ _ Hv Es Hi) as [I1 M1].
   destruct Hin as [Heq|Hin]; [inv Heq; assumption|eauto].
 Qed.
 
 Lemma Inv_init v c f : Inv v (init_world c f).
-Proof. exact I. Qed.
+Proof. reflexivity. Qed.
+
+Lemma exec_Inv v : fixedv v -> forall ops w, Inv v w -> Inv v (exec v w ops).
+Proof.
+  intros Hv. induction ops as [|o ops IH]; simpl; intros w Hi; [assumption|].
+  apply IH. destruct (step v w o) as [w1 [r1 m1]] eqn:Es. simpl.
+  now destruct (step_spec _ _ _ _ _ _ Hv Es Hi).
+Qed.
 
 (* only rollbacks and obstacle removal: the operator is trying to get back *)
 Definition rb_only (ops : list op) : Prop :=
   Forall (fun o => match o with OpRollback _ | OpClear => True | _ => False end) ops.
 
-Lemma rb_only_restores v : v_mode_fix v = true -> forall ops w b gi,
+Lemma rb_only_restores v : fixedv v -> forall ops w b gi,
   rb_only ops -> Inv v w -> g_base w = Some (true, b, gi) ->
   forall w' r m, In (w', (r, m)) (run v w ops) -> r = RRbOk ->
   forall p f, In (p, f) b -> fs w' p = f.
 Proof.
-  intros Hv. induction ops as [|o ops IH]; simpl; intros w b gi Hrb Hi Hg w' r m Hin Hr; [contradiction|].
+  intros Hx. pose proof Hx as (Hv & _ & Hk & Hst).
+  induction ops as [|o ops IH]; simpl; intros w b gi Hrb Hi Hg w' r m Hin Hr; [contradiction|].
   inv Hrb. destruct (step v w o) as [w1 [r1 m1]] eqn:Es.
   assert (Hnext : Inv v w1 /\ g_base w1 = Some (true, b, gi) /\ (r1 = RRbOk -> forall p f, In (p, f) b -> fs w1 p = f)).
-  { destruct o as [T Q F|F| |p0 f0]; try contradiction; simpl in Es.
+  { split; [now destruct (step_spec _ _ _ _ _ _ Hx Es Hi)|].
+    destruct o as [T Q F|F| |p0 f0]; try contradiction; simpl in Es.
     - destruct (rollback_flow v F w) as [w2 rr] eqn:Er.
-      destruct (rollback_step_spec _ _ _ _ _ Er Hi Hv) as (R1 & R2 & R3).
-      destruct rr; inv Es; splits; auto; try congruence; try discriminate.
-      intros _. destruct (R3 eq_refl) as [_ R4]. eapply R4; eauto.
-    - inv Es. splits; auto; try discriminate. }
+      destruct (rollback_step_spec _ _ _ _ _ Er Hi Hv Hst) as (R1 & R2 & R3).
+      destruct rr; inv Es; split; try congruence; try discriminate.
+      intros _. destruct (R3 eq_refl) as (b' & gi' & Hg' & Hr'). rewrite Hg in Hg'. inv Hg'. exact Hr'.
+    - inv Es. split; [assumption|discriminate]. }
   destruct Hnext as (N1 & N2 & N3).
   destruct Hin as [Heq|Hin]; [inv Heq; auto|eauto].
 Qed.
 
-Theorem crash_then_rollback_restores v T Q F w w1 r1 b gi :
-  v_mode_fix v = true ->
-  apply v T Q F w = (w1, r1) -> admits T Q w = true ->
-  g_base w1 = Some (true, b, gi) ->
-  forall ops, rb_only ops ->
-  forall w' r m, In (w', (r, m)) (run v w1 ops) -> r = RRbOk ->
-  forall a, In a (t_arts T) -> fs w' (a_path a) = fs w (a_path a).
-Proof.
-  intros Hv Ha Had Hg ops Hrb w' r m Hin Hr a Hia.
-  unfold apply in Ha. rewrite Had in Ha.
-  destruct (apply_flow_spec _ _ _ _ _ _ Ha (admits_nodup _ _ _ Had)) as (P1 & _ & _ & _ & P5).
-  destruct (P5 _ _ Hg) as [-> _].
-  eapply (rb_only_restores v Hv ops w1 _ gi Hrb P1 Hg w' r m Hin Hr).
-  unfold base_of. apply in_map_iff. exists a. split; [reflexivity|assumption].
-Qed.
-
 (* ------------------------------------------------------------------ headline statements *)
 Lemma no_mixed_success v T Q F w w' :
+  v_keep_fix v = true -> Inv v w ->
   apply v T Q F w = (w', ROk) ->
   (forall a, In a (t_arts T) -> exists mm, new_mode (a_mode a) = Some mm /\
                                   fs w' (a_path a) = Some (Reg (a_content a) mm)) /\
   cur w' = t_to T /\ option_map j_phase (jr w') = Some PCompleted.
 Proof.
-  intros H. unfold apply in H. destruct (admits T Q w) eqn:Ea; [|discriminate].
-  destruct (apply_flow_spec _ _ _ _ _ _ H (admits_nodup _ _ _ Ea)) as (_ & P2 & _).
-  destruct (P2 eq_refl) as (Q1 & Q2 & _ & Q4). auto.
+  intros Hk Hi H. destruct (apply_spec _ _ _ _ _ _ _ Hk H Hi) as (_ & I2 & I3).
+  destruct (admits T Q w) eqn:Ea; [|destruct (I2 eq_refl); discriminate].
+  destruct (I3 eq_refl) as (_ & P2 & _). destruct (P2 eq_refl) as (Q1 & Q2 & _ & Q4). auto.
 Qed.
 
+(* the auto-rollback restores the baseline: the tree before this apply, or — when the apply continues an
+   interrupted upgrade — the tree before that upgrade's first attempt *)
 Lemma failed_apply_restored v T Q F w w' :
-  v_mode_fix v = true ->
-  apply v T Q F w = (w', RErrRolledBack) ->
-  forall a, In a (t_arts T) -> fs w' (a_path a) = fs w (a_path a).
+  fixedv v -> Inv v w -> apply v T Q F w = (w', RErrRolledBack) ->
+  forall p f, In (p, f) (fst (baseline_of w T)) -> fs w' p = f.
 Proof.
-  intros Hv H a Ha. unfold apply in H. destruct (admits T Q w) eqn:Ea; [|discriminate].
-  destruct (apply_flow_spec _ _ _ _ _ _ H (admits_nodup _ _ _ Ea)) as (_ & _ & P3 & _).
-  destruct (P3 eq_refl) as (_ & Q2 & _).
-  rewrite (Q2 (a_path a) (fs w (a_path a))); [now apply normf_fixed|].
-  unfold base_of. apply in_map_iff. exists a. auto.
+  intros (Hv & _ & Hk & _) Hi H p f Hin. destruct (apply_spec _ _ _ _ _ _ _ Hk H Hi) as (_ & I2 & I3).
+  destruct (admits T Q w) eqn:Ea; [|destruct (I2 eq_refl); discriminate].
+  destruct (I3 eq_refl) as (_ & _ & P3 & _). destruct (P3 eq_refl) as (_ & Q2 & _).
+  rewrite (Q2 p f Hin). now apply normf_fixed.
 Qed.
+
+Lemma baseline_fresh w T : resume w = false -> fst (baseline_of w T) = base_of w (t_arts T).
+Proof. unfold baseline_of. now intros ->. Qed.
 
 Lemma early_error_untouched v T Q F w w' :
-  apply v T Q F w = (w', RErr) -> fs w' = fs w /\ cur w' = cur w.
+  v_keep_fix v = true -> Inv v w -> apply v T Q F w = (w', RErr) -> fs w' = fs w /\ cur w' = cur w.
 Proof.
-  intros H. unfold apply in H. destruct (admits T Q w) eqn:Ea; [|inv H; auto].
-  destruct (apply_flow_spec _ _ _ _ _ _ H (admits_nodup _ _ _ Ea)) as (_ & _ & _ & P4 & _). auto.
+  intros Hk Hi H. destruct (apply_spec _ _ _ _ _ _ _ Hk H Hi) as (_ & I2 & I3).
+  destruct (admits T Q w) eqn:Ea; [|destruct (I2 eq_refl) as [-> _]; auto].
+  destruct (I3 eq_refl) as (_ & _ & _ & P4 & _). auto.
 Qed.
 
 Definition inadmissible (T : tarball) (w : world) : Prop :=
@@ -714,7 +872,7 @@ Qed.
 
 Lemma monitor_never_mixed c f ops w' r m :
   In (w', (r, m)) (run repaired (init_world c f) ops) -> m <> MonMixed.
-Proof. apply (run_never_mixed repaired eq_refl ops _ (Inv_init _ _ _)). Qed.
+Proof. apply (run_never_mixed repaired fixedv_repaired ops _ (Inv_init _ _ _)). Qed.
 
 (* ------------------------------------------------------------------ safeTarEntryPath *)
 Definition dd_shape (out : list bstr) : Prop :=
@@ -767,231 +925,377 @@ Proof.
     rewrite Forall_forall in Hn. apply Hn. rewrite <- E. apply in_rev. now rewrite rev_involutive.
 Qed.
 
-(* ------------------------------------------------------------------ version after rollback *)
-Lemma rollback_resets_version v F w w' b gi :
-  v_curm_fix v = true -> Inv v w -> g_base w = Some (true, b, gi) ->
-  rollback_flow v F w = (w', RbOk) -> option_map j_from (jr w) = Some (cur w').
-Proof.
-  intros Hv Hi Hg H. unfold Inv in Hi. rewrite Hg in Hi. destruct Hi as [fr Hs].
-  destruct (rollback_ok_restores _ _ _ _ _ _ Hs H) as [_ Hc].
-  destruct Hs as (d & nv & es & H1 & _). rewrite H1, (Hc Hv). reflexivity.
-Qed.
-
-Lemma wrong_predecessor_after_rollback v F w w' b gi T Q F' pv wf :
-  v_curm_fix v = true -> Inv v w -> g_base w = Some (true, b, gi) ->
-  rollback_flow v F w = (w', RbOk) ->
-  t_prev T = Prev pv wf -> option_map j_from (jr w) <> Some pv ->
-  apply v T Q F' w' = (w', RErr).
-Proof.
-  intros Hv Hi Hg H Hp Hne. apply admission_before_mutation.
-  right. right. right. exists pv, wf. split; [assumption|right].
-  rewrite (rollback_resets_version _ _ _ _ _ _ Hv Hi Hg H) in Hne. congruence.
-Qed.
-
-Lemma run_Inv v : forall ops w, Inv v w -> v_mode_fix v = true ->
-  forall w' out, In (w', out) (run v w ops) -> Inv v w'.
-Proof.
-  induction ops as [|o ops IH]; simpl; intros w Hi Hv w' out Hin; [contradiction|].
-  destruct (step v w o) as [w1 [r1 m1]] eqn:Es.
-  destruct (step_spec _ _ _ _ _ _ Es Hi Hv) as [I1 _].
-  destruct Hin as [Heq|Hin]; [inv Heq; assumption|eauto].
-Qed.
-
 (* ================================================================== version invariant
-   J: current-manifest names the version the installed artifacts belong to (ghost g_inst),
-   every snapshot directory that has metadata carries the saved manifest of its own version,
-   and the ghost of the journal's upgrade agrees with the journal. *)
+   J: current-manifest names the version the installed artifacts belong to (ghost g_inst); the snapshot
+   directory the journal points to carries the saved manifest of its own version once the journal is past
+   "started"; the baseline ghost agrees with the journal; the journal is at "started" exactly while the
+   baseline's snapshot is not complete. *)
+Definition started (w : world) : bool :=
+  match jr w with Some j => phase_started (j_phase j) | None => false end.
+
 Definition J (w : world) : Prop :=
   cur w = g_inst w /\
-  (forall k d, snaps w k = Some d -> s_meta d <> None -> s_curm d = Some k) /\
+  (started w = false -> forall j d, jr w = Some j -> snaps w (j_from j) = Some d -> s_meta d <> None ->
+                        s_curm d = curm_of (j_from j)) /\
   match g_base w with
-  | None => option_map j_from (jr w) = None
-  | Some (b, _, vi) => option_map j_from (jr w) = Some vi /\ (b = false -> cur w = vi)
+  | None => jr w = None
+  | Some (b, _, vi) => option_map j_from (jr w) = Some vi /\ (b = false -> cur w = vi) /\ started w = negb b
   end.
 
-Lemma J_core4 w w' : frame4 w' = frame4 w -> cur w' = cur w -> g_inst w' = g_inst w -> J w -> J w'.
+Lemma started_set_phase w ph : jr w <> None -> started (set_phase w ph) = phase_started ph.
+Proof. unfold started, set_phase. destruct (jr w); [reflexivity|congruence]. Qed.
+
+Lemma jfrom_of_frame4 w w' : frame4 w' = frame4 w -> option_map j_from (jr w') = option_map j_from (jr w).
+Proof. unfold frame4. intros H. now injection H. Qed.
+
+(* J survives anything that keeps frame, version fields and started-ness *)
+Lemma J_core4 w w' : frame4 w' = frame4 w -> cur w' = cur w -> g_inst w' = g_inst w -> started w' = started w ->
+  J w -> J w'.
 Proof.
-  unfold J, frame4. intros Hf Hc Hg (J1 & J2 & J3). injection Hf as Ha Hb Hs Hgb.
-  rewrite Hc, Hg, Hs, Hgb, Ha. auto.
+  unfold J. intros Hf Hc Hg Hst (J1 & J2 & J3).
+  pose proof (jfrom_of_frame4 _ _ Hf) as Hjf.
+  assert (Hsn : snaps w' = snaps w) by (unfold frame4 in Hf; now injection Hf).
+  assert (Hgb : g_base w' = g_base w) by (unfold frame4 in Hf; now injection Hf).
+  rewrite Hc, Hg, Hst, Hsn, Hgb, Hjf. split; [assumption|]. split.
+  - intros Hs j' d Hj' Hd Hm. destruct (jr w) as [j|] eqn:Ej; [|rewrite Hj' in Hjf; discriminate].
+    rewrite Hj' in Hjf. simpl in Hjf. inv Hjf. rewrite H0 in *. apply (J2 Hs j d eq_refl Hd Hm).
+  - destruct (g_base w) as [[[b base] vi]|]; [exact J3|].
+    rewrite J3 in Hjf. destruct (jr w'); [discriminate|reflexivity].
 Qed.
-Lemma J_core w w' : frame w' = frame w -> cur w' = cur w -> g_inst w' = g_inst w -> J w -> J w'.
+Lemma J_core w w' : frame w' = frame w -> cur w' = cur w -> g_inst w' = g_inst w -> started w' = started w ->
+  J w -> J w'.
 Proof. intros H. apply J_core4. now apply frame_frame4. Qed.
 
-Lemma J_set_phase w ph : J w -> J (set_phase w ph).
-Proof. apply J_core; [apply frame_set_phase|apply cur_set_phase|apply ginst_set_phase]. Qed.
+Lemma J_jr_some w : J w -> started w = false -> g_base w <> None -> jr w <> None.
+Proof.
+  intros (_ & _ & J3) _ Hg. destruct (g_base w) as [[[b base] vi]|]; [|congruence].
+  destruct J3 as [J3 _]. destruct (jr w); [congruence|discriminate].
+Qed.
 
-Lemma cur_restore_ginst w : cur (restore_ginst w) = cur w.
+(* phase changes among the phases after "started" *)
+Lemma J_set_phase w ph : J w -> started w = false -> phase_started ph = false -> J (set_phase w ph).
+Proof.
+  intros Hj Hs Hp. destruct (jr w) as [j|] eqn:Ej.
+  - apply (J_core w); auto; [apply frame_set_phase|apply cur_set_phase|apply ginst_set_phase|].
+    rewrite started_set_phase by congruence. now rewrite Hs.
+  - unfold set_phase. now rewrite Ej.
+Qed.
+Lemma started_set_phase_false w ph : started w = false -> phase_started ph = false -> started (set_phase w ph) = false.
+Proof.
+  intros Hs Hp. destruct (jr w) as [j|] eqn:Ej; [rewrite started_set_phase; congruence|].
+  unfold set_phase. now rewrite Ej.
+Qed.
+
+Lemma started_of_jr w w' : jr w' = jr w -> started w' = started w.
+Proof. unfold started. now intros ->. Qed.
+
+Lemma jr_restore_ginst w : jr (restore_ginst w) = jr w.
 Proof. unfold restore_ginst. destruct (g_base w) as [[[[] ?] ?]|] eqn:E; reflexivity. Qed.
+Lemma jr_restore_curm v w d : jr (restore_curm v w d) = jr w.
+Proof. unfold restore_curm. destruct (v_curm_fix v); [destruct (s_curm d)|]; reflexivity. Qed.
 
 Lemma rollback_J v F w w' r :
-  v_curm_fix v = true -> J w -> rollback_flow v F w = (w', r) ->
-  J w' /\ (r = RbOk -> forall b vi, g_base w = Some (true, b, vi) -> cur w' = vi).
+  v_curm_fix v = true -> v_stale_fix v = true -> J w -> rollback_flow v F w = (w', r) ->
+  J w' /\ started w' = started w /\ (r = RbOk -> forall b0 b vi, g_base w = Some (b0, b, vi) -> cur w' = vi).
 Proof.
-  intros Hv Hj H. unfold rollback_flow in H.
-  destruct (jr w) as [j|] eqn:Ej; [|inv H; split; [assumption|discriminate]].
-  destruct (snaps w (j_from j)) as [d|] eqn:Ed; [|inv H; split; [assumption|discriminate]].
-  destruct (s_meta d) as [[nv es]|] eqn:Em; [|inv H; split; [assumption|discriminate]].
-  destruct (seq_oc _); try (inv H; split; [assumption|discriminate]).
+  intros Hv Hstale Hj H. unfold rollback_flow in H.
+  destruct (jr w) as [j|] eqn:Ej; [|inv H; splits; auto; discriminate].
+  rewrite Hstale in H. simpl in H.
+  destruct (phase_started (j_phase j)) eqn:Est; [inv H; splits; auto; discriminate|].
+  assert (Hs : started w = false) by (unfold started; now rewrite Ej).
+  destruct (snaps w (j_from j)) as [d|] eqn:Ed; [|inv H; splits; auto; discriminate].
+  destruct (s_meta d) as [[nv es]|] eqn:Em; [|inv H; splits; auto; discriminate].
+  destruct (seq_oc _); try (inv H; splits; auto; discriminate).
   destruct (restore_loop _ _ _) as [w2 ok] eqn:Er.
-  apply restore_loop_frame in Er as (F2 & C2 & G2).
+  pose proof Er as Er'. apply restore_loop_frame in Er' as (F2 & C2 & G2).
   rewrite frame_set_obst in F2. simpl in C2, G2.
-  assert (J2w : J w2) by (apply (J_core w); assumption).
-  destruct ok; simpl in H; [|inv H; split; [now apply J_set_phase|discriminate]].
+  assert (Hjr2 : option_map j_from (jr w2) = Some (j_from j)).
+  { rewrite (jfrom_of_frame4 _ _ (frame_frame4 _ _ F2)), Ej. reflexivity. }
+  assert (St2 : started w2 = false).
+  { (* restore only touches fs / obst *) clear - Er Hs.
+    assert (G : forall l w0 w1 b, restore_loop w0 d l = (w1, b) -> jr w1 = jr w0).
+    { induction l as [|e r0 IH]; simpl; intros w0 w1 b H; [now inv H|].
+      destruct (e_kind e); [apply IH in H; exact H|apply IH in H; exact H|].
+      destruct (swap_artifact _ _ _ _) as [wx okx] eqn:E.
+      assert (jr wx = jr w0).
+      { unfold swap_artifact in E. destruct (s_bak d (e_path e)); [destruct (obst w0 (e_path e))|]; [inv E; auto| |inv E; auto].
+        destruct (new_mode _); [|inv E; auto]. destruct (fs w0 (e_path e)) as [[| |]|]; inv E; auto. }
+      destruct okx; [apply IH in H; congruence|injection H as <- _; assumption]. }
+    apply G in Er. simpl in Er. unfold started in *. now rewrite Er. }
+  assert (J2w : J w2) by (apply (J_core w); auto; congruence).
+  destruct ok; simpl in H.
+  2:{ inv H. splits; [apply J_set_phase; auto|rewrite Hs; apply started_set_phase_false; auto|discriminate]. }
   set (w3 := restore_ginst (restore_curm v w2 d)) in *.
   destruct Hj as (J1 & J2 & J3).
-  assert (Hcurm : s_curm d = Some (j_from j)) by (apply J2; [assumption|congruence]).
+  assert (Hcurm : s_curm d = curm_of (j_from j)) by (apply (J2 Hs j d); [exact Ej|assumption|congruence]).
   assert (C3 : cur w3 = j_from j).
-  { unfold w3. rewrite cur_restore_ginst. unfold restore_curm. rewrite Hv, Hcurm. reflexivity. }
+  { unfold w3. rewrite cur_restore_ginst, (cur_restore_curm _ _ _ Hv), Hcurm. apply cur_of_curm_of. }
   assert (F3 : frame w3 = frame w).
   { unfold w3. now rewrite frame_restore_ginst, frame_restore_curm. }
-  assert (Gb3 : g_base (restore_curm v w2 d) = g_base w).
-  { apply gbase_of_frame. now rewrite frame_restore_curm. }
-  assert (J3w : J w3 /\ (forall b vi, g_base w = Some (true, b, vi) -> cur w3 = vi)).
-  { unfold J. rewrite (gbase_of_frame _ _ F3).
+  assert (Jr3 : jr w3 = jr w2).
+  { unfold w3. now rewrite jr_restore_ginst, jr_restore_curm. }
+  assert (St3 : started w3 = false) by (rewrite (started_of_jr _ _ Jr3); exact St2).
+  assert (J3w : J w3 /\ (forall b0 b vi, g_base w = Some (b0, b, vi) -> cur w3 = vi)).
+  { unfold J. rewrite (gbase_of_frame _ _ F3), St3.
     assert (Hsn : snaps w3 = snaps w) by (unfold frame in F3; now injection F3).
-    assert (Hjf : option_map j_from (jr w3) = option_map j_from (jr w)) by (unfold frame in F3; now injection F3).
-    rewrite Hsn, Hjf, C3, Ej. simpl.
+    pose proof (jfrom_of_frame4 _ _ (frame_frame4 _ _ F3)) as Hjf. rewrite Ej in Hjf. simpl in Hjf.
+    rewrite Hsn, Hjf, C3.
     destruct (g_base w) as [[[b base] vi]|] eqn:Eg.
-    - rewrite Ej in J3. simpl in J3. destruct J3 as [J3a J3b].
-      assert (Hvi : vi = j_from j) by congruence. subst vi. clear J3a.
-      split; [|intros b0 vi0 Hb; injection Hb as _ _ <-; reflexivity].
-      split; [|split; [exact J2|split; [reflexivity|reflexivity]]].
-      unfold w3, restore_ginst. rewrite Gb3. try rewrite Eg. destruct b; simpl.
-      + reflexivity.
-      + unfold restore_curm. rewrite Hv, Hcurm. simpl. rewrite G2, <- J1. symmetry. now apply J3b.
+    - rewrite Ej in J3. simpl in J3. destruct J3 as (J3a & J3b & J3c).
+      assert (Hvi : vi = j_from j) by congruence. subst vi.
+      rewrite Hs in J3c. destruct b; [|discriminate].
+      split; [|intros b0 b1 vi0 Hb; injection Hb as _ _ <-; reflexivity].
+      split; [|split].
+      + unfold w3, restore_ginst.
+        assert (Gb : g_base (restore_curm v w2 d) = Some (true, base, j_from j)).
+        { rewrite (gbase_of_frame _ _ (frame_restore_curm _ _ _)), (gbase_of_frame _ _ F2). exact Eg. }
+        rewrite Gb. reflexivity.
+      + intros _ j' d' Hj' Hd' Hm'.
+        assert (Hjj : j_from j' = j_from j).
+        { rewrite Jr3 in Hj'. rewrite Hj' in Hjr2. simpl in Hjr2. congruence. }
+        rewrite Hjj in *. rewrite Ed in Hd'. inv Hd'. exact Hcurm.
+      + splits; auto; discriminate.
     - rewrite Ej in J3. discriminate. }
   destruct J3w as [J3w V3].
   destruct (if nv then vpp_seq F 10 else OGo);
-    [|inv H; split; [now apply J_set_phase|discriminate]|inv H; split; [assumption|discriminate]].
+    [|inv H; splits; [apply J_set_phase; auto|rewrite Hs; apply started_set_phase_false; auto|discriminate]
+     |inv H; splits; [assumption|congruence|discriminate]].
   destruct (seq_oc _);
-    [|inv H; split; [now apply J_set_phase|discriminate]|inv H; split; [assumption|discriminate]].
-  destruct (f_hr F); inv H; (split; [now apply J_set_phase|]); try discriminate.
-  intros _ b vi Hb. rewrite cur_set_phase. eauto.
+    [|inv H; splits; [apply J_set_phase; auto|rewrite Hs; apply started_set_phase_false; auto|discriminate]
+     |inv H; splits; [assumption|congruence|discriminate]].
+  destruct (f_hr F); inv H; (splits; [apply J_set_phase; auto|rewrite Hs; apply started_set_phase_false; auto|]); try discriminate.
+  intros _ b0 b vi Hb. rewrite cur_set_phase. eauto.
 Qed.
 
 Lemma auto_rollback_J v F w w' r :
-  v_curm_fix v = true -> J w -> auto_rollback v F w = (w', r) ->
-  J w' /\ (r = RErrRolledBack -> forall b vi, g_base w = Some (true, b, vi) -> cur w' = vi).
+  v_curm_fix v = true -> v_stale_fix v = true -> J w -> started w = false -> auto_rollback v F w = (w', r) ->
+  J w' /\ started w' = false /\ (r = RErrRolledBack -> forall b0 b vi, g_base w = Some (b0, b, vi) -> cur w' = vi).
 Proof.
-  intros Hv Hj H. unfold auto_rollback in H.
-  destruct (crash_at F 52); [inv H; split; [assumption|discriminate]|].
+  intros Hv Hst Hj Hs H. unfold auto_rollback in H.
+  destruct (crash_at F 52); [inv H; splits; auto; discriminate|].
   destruct (rollback_flow v F w) as [w1 rr] eqn:E.
-  destruct (rollback_J _ _ _ _ _ Hv Hj E) as [J1 V1].
-  destruct rr; inv H; (split; [try apply J_set_phase; assumption|]); try discriminate.
-  intros _. now apply V1.
+  destruct (rollback_J _ _ _ _ _ Hv Hst Hj E) as (J1 & S1 & V1). rewrite Hs in S1.
+  destruct rr; inv H.
+  - split; [assumption|]. split; [assumption|]. intros _. now apply V1.
+  - splits; [apply J_set_phase; auto|apply started_set_phase_false; auto|discriminate].
+  - split; [assumption|]. split; [assumption|discriminate].
 Qed.
 
-Lemma J_commit w v0 : J w -> (exists b base vi, g_base w = Some (b, base, vi) /\ b = true) ->
-  J (set_ginst (set_cur w v0) v0).
+Lemma J_commit w v0 : J w -> started w = false -> J (set_ginst (set_cur w v0) v0).
 Proof.
-  intros (J1 & J2 & J3) (b & base & vi & Hg & ->). unfold J. simpl. rewrite Hg in *.
-  split; [reflexivity|]. split; [exact J2|]. destruct J3 as [J3 _]. split; [exact J3|discriminate].
+  intros (J1 & J2 & J3) Hs. unfold J. simpl.
+  assert (St : started (set_ginst (set_cur w v0) v0) = started w) by reflexivity.
+  rewrite St, Hs. split; [reflexivity|]. split; [intros _; exact (J2 Hs)|].
+  destruct (g_base w) as [[[b base] vi]|]; [|exact J3].
+  destruct J3 as (J3a & J3b & J3c). rewrite Hs in J3c. destruct b; [|discriminate].
+  splits; auto. discriminate.
 Qed.
 
-Lemma J_prune w k : J w -> J (prune w k).
+Lemma J_prune w k : J w -> (forall j, jr w = Some j -> j_from j = k) -> J (prune w k).
 Proof.
-  intros (J1 & J2 & J3). unfold J, prune. simpl. split; [assumption|]. split; [|assumption].
-  intros q d Hq Hm. destruct (N.eqb q k); [now apply J2|].
-  destruct (snaps w q) as [d0|]; [|discriminate]. destruct (s_meta d0) eqn:E0; [discriminate|].
-  inv Hq. congruence.
+  intros (J1 & J2 & J3) Hk. unfold J, prune. simpl.
+  assert (St : started (set_snaps w (fun q => if N.eqb q k then snaps w q else
+            match snaps w q with Some d => match s_meta d with None => Some d | Some _ => None end | None => None end))
+          = started w) by reflexivity.
+  rewrite St. split; [assumption|]. split; [|assumption].
+  intros Hs j d Hj Hd Hm. rewrite (Hk j Hj), N.eqb_refl in Hd. rewrite <- (Hk j Hj) in Hd. eauto.
 Qed.
 
 Lemma post_swap_J v T F from w7 w' r :
-  v_curm_fix v = true -> J w7 -> (exists base vi, g_base w7 = Some (true, base, vi)) ->
+  v_curm_fix v = true -> v_stale_fix v = true -> J w7 -> started w7 = false -> g_base w7 <> None ->
+  (forall j, jr w7 = Some j -> j_from j = from) ->
   post_swap v T F from w7 = (w', r) ->
-  J w' /\ (r = RErrRolledBack -> forall b vi, g_base w7 = Some (true, b, vi) -> cur w' = vi).
+  J w' /\ (r = RErrRolledBack -> forall b0 b vi, g_base w7 = Some (b0, b, vi) -> cur w' = vi).
 Proof.
-  intros Hv Hj (base & vi & Hg) H. unfold post_swap in H.
-  assert (Hauto : forall ph, auto_rollback v F (set_phase w7 ph) = (w', r) ->
-    J w' /\ (r = RErrRolledBack -> forall b vi, g_base w7 = Some (true, b, vi) -> cur w' = vi)).
-  { intros ph Ha. destruct (auto_rollback_J _ _ _ _ _ Hv (J_set_phase _ ph Hj) Ha) as [A1 A2].
-    split; [assumption|]. intros Hr b0 vi0 Hb. apply (A2 Hr b0).
-    rewrite (gbase_of_frame _ _ (frame_set_phase w7 ph)). exact Hb. }
+  intros Hv Hst Hj Hs Hgn Hfrom H. unfold post_swap in H.
+  assert (Hauto : forall wa, J wa -> started wa = false -> g_base wa = g_base w7 -> auto_rollback v F wa = (w', r) ->
+    J w' /\ (r = RErrRolledBack -> forall b0 b vi, g_base w7 = Some (b0, b, vi) -> cur w' = vi)).
+  { intros wa Ja Sa Ga Ha. destruct (auto_rollback_J _ _ _ _ _ Hv Hst Ja Sa Ha) as (A1 & _ & A2).
+    split; [assumption|]. intros Hr b0 b vi Hb. apply (A2 Hr b0 b). now rewrite Ga. }
+  assert (P : forall ph, phase_started ph = false ->
+     J (set_phase w7 ph) /\ started (set_phase w7 ph) = false /\ g_base (set_phase w7 ph) = g_base w7).
+  { intros ph Hp. splits; [apply J_set_phase; auto|apply started_set_phase_false; auto|apply gbase_of_frame, frame_set_phase]. }
   destruct (if needs_vpp (t_arts T) then vpp_seq F 0 else OGo);
-    [|now apply (Hauto PAbortedPostSwap)|inv H; split; [assumption|discriminate]].
+    [|destruct (P PAbortedPostSwap eq_refl) as (A & B & C); now apply (Hauto _ A B C)|inv H; split; [assumption|discriminate]].
   destruct (seq_oc _);
-    [|now apply (Hauto PAbortedPostSwap)|inv H; split; [assumption|discriminate]].
-  destruct (crash_at F 31); [inv H; split; [now apply J_set_phase|discriminate]|].
+    [|destruct (P PAbortedPostSwap eq_refl) as (A & B & C); now apply (Hauto _ A B C)|inv H; split; [assumption|discriminate]].
+  destruct (P PDaemonStarted eq_refl) as (J8 & S8 & G8).
+  destruct (crash_at F 31); [inv H; split; [assumption|discriminate]|].
   destruct (f_ha F); simpl in H.
-  2:{ destruct (crash_at F 53); [inv H; split; [now apply J_set_phase|discriminate]|].
-      destruct (auto_rollback_J _ _ _ _ _ Hv (J_set_phase _ PHealthFailed (J_set_phase _ PDaemonStarted Hj)) H) as [A1 A2].
-      split; [assumption|]. intros Hr b0 vi0 Hb. apply (A2 Hr b0).
-      rewrite (gbase_of_frame _ _ (frame_set_phase _ _)), (gbase_of_frame _ _ (frame_set_phase _ _)). exact Hb. }
-  destruct (crash_at F 32); [inv H; split; [now apply J_set_phase|discriminate]|].
-  assert (Jc : J (set_ginst (set_cur (set_phase w7 PDaemonStarted) (t_to T)) (t_to T))).
-  { apply J_commit; [now apply J_set_phase|].
-    exists true, base, vi. split; [|reflexivity].
-    rewrite (gbase_of_frame _ _ (frame_set_phase _ _)). exact Hg. }
+  2:{ destruct (crash_at F 53); [inv H; split; [assumption|discriminate]|].
+      apply (Hauto (set_phase (set_phase w7 PDaemonStarted) PHealthFailed)); auto.
+      - apply J_set_phase; auto.
+      - apply started_set_phase_false; auto.
+      - rewrite (gbase_of_frame _ _ (frame_set_phase _ _)). exact G8. }
+  destruct (crash_at F 32); [inv H; split; [assumption|discriminate]|].
+  assert (Jc : J (set_ginst (set_cur (set_phase w7 PDaemonStarted) (t_to T)) (t_to T))) by (apply J_commit; auto).
   destruct (crash_at F 35); [inv H; split; [assumption|discriminate]|].
-  destruct (crash_at F 33); [inv H; split; [now apply J_set_phase|discriminate]|].
-  destruct (crash_at F 34); inv H; (split; [apply J_prune; now apply J_set_phase|discriminate]).
+  assert (Sc : started (set_ginst (set_cur (set_phase w7 PDaemonStarted) (t_to T)) (t_to T)) = false) by exact S8.
+  assert (J9 : J (set_phase (set_ginst (set_cur (set_phase w7 PDaemonStarted) (t_to T)) (t_to T)) PCompleted))
+    by (apply J_set_phase; auto).
+  destruct (crash_at F 33); [inv H; split; [assumption|discriminate]|].
+  assert (J10 : J (prune (set_phase (set_ginst (set_cur (set_phase w7 PDaemonStarted) (t_to T)) (t_to T)) PCompleted) from)).
+  { apply J_prune; [assumption|]. intros j Hjj.
+    assert (Hx : option_map j_from (jr (set_phase (set_ginst (set_cur (set_phase w7 PDaemonStarted) (t_to T)) (t_to T)) PCompleted))
+                 = option_map j_from (jr w7)).
+    { apply jfrom_of_frame4, frame_frame4. rewrite frame_set_phase, frame_set_ginst, frame_set_cur. apply frame_set_phase. }
+    rewrite Hjj in Hx. simpl in Hx. destruct (jr w7) as [j7|] eqn:E7; [|discriminate].
+    simpl in Hx. injection Hx as ->. now apply Hfrom. }
+  destruct (crash_at F 34); inv H; (split; [assumption|discriminate]).
 Qed.
 
-Lemma do_snapshot_J2 v w arts w1 ok :
-  v_curm_fix v = true ->
-  (forall k d, snaps w k = Some d -> s_meta d <> None -> s_curm d = Some k) ->
-  do_snapshot v w (cur w) arts = (w1, ok) ->
-  (forall k d, snaps w1 k = Some d -> s_meta d <> None -> s_curm d = Some k).
+Lemma swap_artifact_jr w src p m w' b : swap_artifact w src p m = (w', b) -> jr w' = jr w.
 Proof.
-  intros Hv H2 H. unfold do_snapshot in H.
-  destruct (snap_loop _ _ _ _) as [b [l|]]; inv H; simpl; intros k d Hk Hm.
-  - unfold upd in Hk. destruct (N.eqb_spec k (cur w)) as [->|Hne]; [|now apply H2].
-    inv Hk. simpl. now rewrite Hv.
-  - unfold upd in Hk. destruct (N.eqb_spec k (cur w)) as [->|Hne]; [|now apply H2].
-    inv Hk. simpl in *. destruct (snaps w (cur w)) as [d0|] eqn:E0; [now apply H2|]. simpl in Hm. congruence.
+  unfold swap_artifact. intros H.
+  destruct src; [destruct (obst w p)|]; [inv H; auto| |inv H; auto].
+  destruct (new_mode m); [|inv H; auto]. destruct (fs w p) as [[| |]|]; inv H; auto.
 Qed.
 
-Lemma apply_flow_J v T F w w' r :
-  v_curm_fix v = true -> J w -> apply_flow v T F w = (w', r) ->
-  J w' /\ (r = RErrRolledBack -> cur w' = cur w).
+Lemma swap_loop_started arts : forall w w' b, swap_loop w arts = (w', b) -> started w = false -> started w' = false.
 Proof.
-  intros Hv (J1 & J2 & J3) H. unfold apply_flow in H.
-  set (base := base_of w (t_arts T)) in *.
-  set (w0 := set_gfs0 _ _ _) in H.
-  assert (J0 : J w0).
-  { unfold J, w0. simpl. split; [assumption|]. split; [assumption|]. split; reflexivity. }
-  destruct (crash_at F 25); [inv H; split; [assumption|discriminate]|].
-  destruct (do_snapshot v w0 (cur w) (t_arts T)) as [w1 ok] eqn:Es.
-  pose proof (do_snapshot_J2 v w0 (t_arts T) w1 ok Hv J2 Es) as S2.
-  apply do_snapshot_spec in Es as (S1 & _ & S3 & _ & S5 & S6 & _).
-  assert (J1w : J w1).
-  { unfold J. rewrite S3, S5, S6, S1. unfold w0. simpl. split; [assumption|]. split; [assumption|]. split; reflexivity. }
-  destruct ok; simpl in H; [|inv H; split; [assumption|discriminate]].
-  set (w2 := set_phase (set_gbase w1 _) PSnapshotDone) in H.
-  assert (J2w : J w2).
-  { unfold w2. apply J_set_phase. unfold J. simpl. rewrite S3, S5, S1. unfold w0. simpl.
-    split; [assumption|]. split; [assumption|]. split; [reflexivity|discriminate]. }
-  assert (Hg2 : g_base w2 = Some (true, base, cur w)).
-  { unfold w2. rewrite (gbase_of_frame _ _ (frame_set_phase _ _)). reflexivity. }
+  induction arts as [|a r IH]; simpl; intros w w' b H Hs; [now inv H|].
+  destruct (swap_artifact _ _ _ _) as [w2 ok] eqn:E.
+  assert (S2 : started w2 = false).
+  { rewrite (started_of_jr _ _ (swap_artifact_jr _ _ _ _ _ _ E)). now apply started_set_phase_false. }
+  destruct ok; [|now inv H]. eapply IH; [exact H|]. now apply started_set_phase_false.
+Qed.
+
+Lemma after_snapshot_J v T F from w2 w' r :
+  v_curm_fix v = true -> v_stale_fix v = true -> J w2 -> started w2 = false -> g_base w2 <> None ->
+  (forall j, jr w2 = Some j -> j_from j = from) ->
+  after_snapshot v T F from w2 = (w', r) ->
+  J w' /\ (r = RErrRolledBack -> forall b0 b vi, g_base w2 = Some (b0, b, vi) -> cur w' = vi).
+Proof.
+  intros Hv Hst Hj Hs Hgn Hfrom H. unfold after_snapshot in H.
+  assert (P : forall wx ph, J wx -> started wx = false -> phase_started ph = false ->
+     J (set_phase wx ph) /\ started (set_phase wx ph) = false).
+  { intros wx ph A B C. split; [apply J_set_phase; auto|apply started_set_phase_false; auto]. }
   destruct (crash_at F 26); [inv H; split; [assumption|discriminate]|].
   destruct (t_hook_ok T); simpl in H; [|inv H; split; [assumption|discriminate]].
-  destruct (seq_oc _); try (inv H; split; [now apply J_set_phase|discriminate]).
-  destruct (seq_oc _); try (inv H; split; [do 2 apply J_set_phase; assumption|discriminate]).
-  destruct (crash_at F 29); [inv H; split; [do 3 apply J_set_phase; assumption|discriminate]|].
+  destruct (P w2 PPreHookDone Hj Hs eq_refl) as [J3 S3].
+  destruct (seq_oc _); try (inv H; split; [assumption|discriminate]).
+  destruct (P _ PRestartSuspended J3 S3 eq_refl) as [J4 S4].
+  destruct (seq_oc _); try (inv H; split; [assumption|discriminate]).
+  destruct (P _ PDaemonStopped J4 S4 eq_refl) as [J5 S5].
+  destruct (crash_at F 29); [inv H; split; [assumption|discriminate]|].
   destruct (swap_loop _ _) as [w7 sok] eqn:Esw.
+  assert (S7 : started w7 = false).
+  { eapply swap_loop_started; [exact Esw|]. simpl. exact S5. }
   apply swap_loop_frame in Esw as (F7 & C7 & G7).
   rewrite frame_set_obst, !frame_set_phase in F7. simpl in C7, G7.
   rewrite !cur_set_phase in C7. rewrite !ginst_set_phase in G7.
-  assert (J7 : J w7) by (apply (J_core w2); assumption).
-  assert (Hg7 : g_base w7 = Some (true, base, cur w)) by (rewrite (gbase_of_frame _ _ F7); exact Hg2).
+  assert (J7 : J w7) by (apply (J_core w2); auto; congruence).
+  assert (Hg7 : g_base w7 = g_base w2) by now apply gbase_of_frame.
+  assert (Hfrom7 : forall j, jr w7 = Some j -> j_from j = from).
+  { intros j Hjj. pose proof (jfrom_of_frame4 _ _ (frame_frame4 _ _ F7)) as Jf7.
+    rewrite Hjj in Jf7. simpl in Jf7. destruct (jr w2) as [j2|] eqn:E2; [|discriminate].
+    simpl in Jf7. injection Jf7 as ->. now apply Hfrom. }
   destruct sok; simpl in H.
-  - destruct (post_swap_J _ _ _ _ _ _ _ Hv J7 (ex_intro _ base (ex_intro _ (cur w) Hg7)) H) as [P1 P2].
-    split; [assumption|]. intros Hr. eapply P2; eauto.
+  - destruct (post_swap_J _ _ _ _ _ _ _ Hv Hst J7 S7 ltac:(congruence) Hfrom7 H) as [P1 P2].
+    split; [assumption|]. intros Hr b0 b vi Hb. apply (P2 Hr b0 b). congruence.
   - destruct (crash_at F 51); [inv H; split; [assumption|discriminate]|].
-    destruct (auto_rollback_J _ _ _ _ _ Hv (J_set_phase _ PAbortedMidSwap J7) H) as [A1 A2].
-    split; [assumption|]. intros Hr. apply (A2 Hr base).
-    rewrite (gbase_of_frame _ _ (frame_set_phase _ _)). exact Hg7.
+    destruct (auto_rollback_J _ _ _ _ _ Hv Hst (J_set_phase _ PAbortedMidSwap J7 S7 eq_refl)
+                (started_set_phase_false _ PAbortedMidSwap S7 eq_refl) H) as (A1 & _ & A2).
+    split; [assumption|]. intros Hr b0 b vi Hb. apply (A2 Hr b0 b).
+    rewrite (gbase_of_frame _ _ (frame_set_phase _ _)). congruence.
 Qed.
 
-Lemma step_J v w o :
-  v_curm_fix v = true -> J w -> J (fst (step v w o)).
+Lemma resume_started w : resume w = true -> started w = false.
+Proof. unfold resume, started. destruct (jr w) as [j|]; [|discriminate]. destruct (j_phase j); simpl; auto; discriminate. Qed.
+
+Lemma fresh_flow_J v T F w w' r :
+  v_curm_fix v = true -> v_stale_fix v = true -> J w -> resume w = false ->
+  fresh_flow v T F w = (w', r) -> J w' /\ (r = RErrRolledBack -> cur w' = cur w).
 Proof.
-  intros Hv Hj. destruct o as [T Q F|F| |p f]; simpl.
+  intros Hv Hst (J1 & J2 & J3) Hres H. unfold fresh_flow in H. rewrite Hres in H. simpl in H.
+  set (base := base_of w (t_arts T)) in *.
+  set (w0 := set_gfs0 _ _ _) in H.
+  assert (J0 : J w0).
+  { unfold J, w0. simpl. split; [assumption|]. split; [discriminate|]. splits; reflexivity. }
+  destruct (crash_at F 25); [inv H; split; [assumption|discriminate]|].
+  destruct (do_snapshot v w0 (cur w) (t_arts T)) as [w1 ok] eqn:Es.
+  pose proof Es as Es'. apply do_snapshot_spec in Es' as (S1 & _ & S3 & _ & S5 & S6 & S7).
+  assert (J1w : J w1).
+  { unfold J. rewrite S3, S5, S6. unfold started. rewrite S1. unfold w0. simpl.
+    split; [assumption|]. split; [discriminate|]. splits; reflexivity. }
+  destruct ok; simpl in H; [|inv H; split; [assumption|discriminate]].
+  destruct (crash_at F 36); simpl in H.
+  { inv H. destruct (do_snapshot_nocurm_same v w0 (cur w) (t_arts T)) as (N1 & _ & N3 & N4 & N5 & _).
+    split; [|discriminate]. unfold J. rewrite N3, N4, N5. unfold started. rewrite N1. unfold w0. simpl.
+    split; [assumption|]. split; [discriminate|]. splits; reflexivity. }
+  destruct (S7 eq_refl) as (d & nv & es & D1 & D2 & _ & D4).
+  set (w2 := set_phase (set_gbase w1 _) PSnapshotDone) in H.
+  assert (Jr2 : jr w2 = Some {| j_from := cur w; j_to := t_to T; j_phase := PSnapshotDone |}).
+  { unfold w2, set_phase. simpl. rewrite S1. reflexivity. }
+  assert (St2 : started w2 = false) by (unfold started; now rewrite Jr2).
+  assert (J2w : J w2).
+  { unfold J. rewrite St2, Jr2. unfold w2. rewrite cur_set_phase, ginst_set_phase, (gbase_of_frame _ _ (frame_set_phase _ _)).
+    simpl. rewrite S3, S5. unfold w0. simpl. split; [assumption|]. split.
+    - intros _ j0 d0 Hj0 Hd0 _. inv Hj0. simpl in Hd0.
+      assert (snaps (set_phase (set_gbase w1 (Some (true, base, cur w))) PSnapshotDone) = snaps w1)
+        by (unfold set_phase; simpl; destruct (jr w1); reflexivity).
+      rewrite H0 in Hd0. rewrite D1 in Hd0. inv Hd0. simpl. exact (D4 Hv).
+    - splits; auto; discriminate. }
+  assert (Hfrom : forall j, jr w2 = Some j -> j_from j = cur w) by (intros j Hj; rewrite Jr2 in Hj; now inv Hj).
+  assert (Hg2 : g_base w2 = Some (true, base, cur w)).
+  { unfold w2. rewrite (gbase_of_frame _ _ (frame_set_phase _ _)). reflexivity. }
+  destruct (after_snapshot_J _ _ _ _ _ _ _ Hv Hst J2w St2 ltac:(congruence) Hfrom H) as [A1 A2].
+  split; [assumption|]. intros Hr. eapply A2; eauto.
+Qed.
+
+Lemma keep_flow_J v T F w w' r j d nv es :
+  v_curm_fix v = true -> v_stale_fix v = true -> J w -> resume w = true ->
+  jr w = Some j -> snaps w (j_from j) = Some d -> s_meta d = Some (nv, es) ->
+  keep_flow v T F w j d nv es = (w', r) ->
+  J w' /\ (r = RErrRolledBack -> forall b0 b vi, g_base w = Some (b0, b, vi) -> cur w' = vi).
+Proof.
+  intros Hv Hst Hj Hres Hjr Hd Hm H. unfold keep_flow in H.
+  pose proof (resume_started _ Hres) as Hs.
+  destruct Hj as (J1 & J2 & J3).
+  assert (Hgn : g_base w <> None) by (intros E; rewrite E in J3; congruence).
+  set (w0 := set_jr w _) in H.
+  assert (J0 : J w0 /\ started w0 = false).
+  { split; [|reflexivity]. unfold J. simpl. split; [assumption|]. split.
+    - intros _ j0 d0 Hj0 Hd0 Hm0. inv Hj0. simpl in Hd0. apply (J2 Hs j d0 Hjr Hd0 Hm0).
+    - destruct (g_base w) as [[[b base] vi]|]; [|congruence].
+      rewrite Hjr in J3. simpl in J3. destruct J3 as (A & B & C). rewrite Hs in C. splits; auto. }
+  destruct J0 as [J0 S0].
+  destruct (crash_at F 25); [inv H; split; [assumption|discriminate]|].
+  set (w1 := set_snaps w0 _) in H.
+  assert (J1w : J (set_phase w1 PSnapshotDone) /\ started (set_phase w1 PSnapshotDone) = false).
+  { split; [|reflexivity]. unfold J. rewrite cur_set_phase, ginst_set_phase, (gbase_of_frame _ _ (frame_set_phase _ _)).
+    unfold set_phase, w1, w0. simpl. split; [assumption|]. split.
+    - intros _ j0 d0 Hj0 Hd0 Hm0. inv Hj0. simpl in Hd0. rewrite upd_same in Hd0. inv Hd0. simpl.
+      apply (J2 Hs j d Hjr Hd). congruence.
+    - destruct (g_base w) as [[[b base] vi]|]; [|congruence].
+      rewrite Hjr in J3. simpl in J3. destruct J3 as (A & B & C). rewrite Hs in C. splits; auto. }
+  destruct J1w as [J1w S1w].
+  assert (Hfrom : forall j0, jr (set_phase w1 PSnapshotDone) = Some j0 -> j_from j0 = j_from j).
+  { intros j0 Hj0. unfold set_phase, w1, w0 in Hj0. simpl in Hj0. now inv Hj0. }
+  assert (Hg : g_base (set_phase w1 PSnapshotDone) = g_base w).
+  { rewrite (gbase_of_frame _ _ (frame_set_phase _ _)). reflexivity. }
+  destruct (after_snapshot_J _ _ _ _ _ _ _ Hv Hst J1w S1w ltac:(congruence) Hfrom H) as [A1 A2].
+  split; [assumption|]. intros Hr b0 b vi Hb. apply (A2 Hr b0 b). congruence.
+Qed.
+
+Lemma apply_flow_J v T F w w' r :
+  fixedv v -> Inv v w -> J w -> apply_flow v T F w = (w', r) -> J w'.
+Proof.
+  intros (_ & Hv & Hk & Hst) Hi Hj H. unfold apply_flow in H. rewrite Hk in H. simpl in H.
+  destruct (resume w) eqn:Hr; [|now destruct (fresh_flow_J _ _ _ _ _ _ Hv Hst Hj Hr H)].
+  destruct (resume_Inv _ _ Hi Hr) as (j & base & bv & Hjr & Hg & Hs).
+  rewrite Hjr in H. destruct Hs as (d & nv & es & H1 & H2 & H3 & _). rewrite H2, H3 in H.
+  destruct (covered es (t_arts T)); [|now inv H].
+  now destruct (keep_flow_J _ _ _ _ _ _ _ _ _ _ Hv Hst Hj Hr Hjr H2 H3 H).
+Qed.
+
+Lemma step_J v w o : fixedv v -> Inv v w -> J w -> J (fst (step v w o)).
+Proof.
+  intros Hx Hi Hj. pose proof Hx as (_ & Hv & Hk & Hst). destruct o as [T Q F|F| |p f]; simpl.
   - unfold apply. destruct (admits T Q w); [|exact Hj].
-    destruct (apply_flow v T F w) as [w1 r1] eqn:E. simpl.
-    now destruct (apply_flow_J _ _ _ _ _ _ Hv Hj E).
+    destruct (apply_flow v T F w) as [w1 r1] eqn:E. simpl. eapply apply_flow_J; eauto.
   - destruct (rollback_flow v F w) as [w1 rr] eqn:E.
-    destruct (rollback_J _ _ _ _ _ Hv Hj E) as [J1 _]. destruct rr; exact J1.
+    destruct (rollback_J _ _ _ _ _ Hv Hst Hj E) as [J1 _]. destruct rr; exact J1.
   - apply (J_core w); auto.
   - apply (J_core4 w); auto.
 Qed.
@@ -999,53 +1303,56 @@ Qed.
 Lemma J_init c f : J (init_world c f).
 Proof. unfold J, init_world. simpl. split; [reflexivity|]. split; [discriminate|reflexivity]. Qed.
 
-Lemma exec_J v : v_curm_fix v = true -> forall ops w, J w -> J (exec v w ops).
+Lemma exec_IJ v : fixedv v -> forall ops w, Inv v w -> J w -> Inv v (exec v w ops) /\ J (exec v w ops).
 Proof.
-  intros Hv. induction ops as [|o ops IH]; simpl; intros w Hj; [assumption|].
-  apply IH. now apply step_J.
+  intros Hx. induction ops as [|o ops IH]; simpl; intros w Hi Hj; [auto|].
+  apply IH; [|now apply step_J].
+  destruct (step v w o) as [w1 [r1 m1]] eqn:Es. simpl. now destruct (step_spec _ _ _ _ _ _ Hx Es Hi).
 Qed.
 
-Lemma exec_Inv v : v_mode_fix v = true -> forall ops w, Inv v w -> Inv v (exec v w ops).
-Proof.
-  intros Hv. induction ops as [|o ops IH]; simpl; intros w Hi; [assumption|].
-  apply IH. destruct (step v w o) as [w1 [r1 m1]] eqn:Es. simpl.
-  now destruct (step_spec _ _ _ _ _ _ Es Hi Hv).
-Qed.
-
-(* every step from a reachable state: tree monitor and version monitor never alarm *)
+(* every step from a state satisfying the invariants: tree monitor and version monitor never alarm *)
 Lemma step_consistent v w o w' r m :
-  v_mode_fix v = true -> v_curm_fix v = true -> Inv v w -> J w ->
-  step v w o = (w', (r, m)) -> m <> MonMixed /\ step_ver o w' r <> MonMixed.
+  fixedv v -> Inv v w -> J w -> step v w o = (w', (r, m)) -> m <> MonMixed /\ step_ver o w' r <> MonMixed.
 Proof.
-  intros Hm Hc Hi Hj Hs. split; [now destruct (step_spec _ _ _ _ _ _ Hs Hi Hm)|].
+  intros Hx Hi Hj Hs. pose proof Hx as (Hm & Hc & Hk & Hst).
+  split; [now destruct (step_spec _ _ _ _ _ _ Hx Hs Hi)|].
   destruct o as [T Q F|F| |p f]; simpl in *; try discriminate.
   - destruct (apply v T Q F w) as [w1 r1] eqn:Ea. inv Hs.
-    destruct r; try discriminate.
-    + destruct (no_mixed_success _ _ _ _ _ _ Ea) as (_ & Hcur & _).
-      unfold ver_new. rewrite Hcur, N.eqb_refl. discriminate.
-    + unfold apply in Ea. destruct (admits T Q w) eqn:Ead; [|discriminate].
-      destruct (apply_flow_spec _ _ _ _ _ _ Ea (admits_nodup _ _ _ Ead)) as (_ & _ & P3 & _).
-      destruct (P3 eq_refl) as (Q1 & _ & Q3).
-      unfold ver_restored. rewrite Q1, (Q3 Hc), N.eqb_refl. discriminate.
+    destruct (apply_spec _ _ _ _ _ _ _ Hk Ea Hi) as (_ & I2 & I3).
+    destruct (admits T Q w) eqn:Ead; [|destruct (I2 eq_refl) as [_ ->]; discriminate].
+    destruct (I3 eq_refl) as (_ & P2 & P3 & _). destruct r; try discriminate.
+    + destruct (P2 eq_refl) as (_ & Hcur & _). unfold ver_new. rewrite Hcur, N.eqb_refl. discriminate.
+    + destruct (P3 eq_refl) as (Q1 & _ & _).
+      unfold ver_restored. rewrite Q1.
+      (* the version restored is the baseline's *)
+      assert (Hcw : cur w' = snd (baseline_of w T)).
+      { unfold apply in Ea. rewrite Ead in Ea. unfold apply_flow in Ea. rewrite Hk in Ea. simpl in Ea.
+        unfold baseline_of. destruct (resume w) eqn:Hr.
+        - destruct (resume_Inv _ _ Hi Hr) as (j & base & bv & Hjr & Hg & Hs).
+          rewrite Hjr in Ea. destruct Hs as (d & nv & es & H1 & H2 & H3 & _). rewrite H2, H3 in Ea.
+          destruct (covered es (t_arts T)); [|discriminate]. rewrite Hg. simpl.
+          destruct (keep_flow_J _ _ _ _ _ _ _ _ _ _ Hc Hst Hj Hr Hjr H2 H3 Ea) as [_ A]. eapply A; eauto.
+        - simpl. now destruct (fresh_flow_J _ _ _ _ _ _ Hc Hst Hj Hr Ea) as [_ ->]. }
+      rewrite Hcw, N.eqb_refl. discriminate.
   - destruct (rollback_flow v F w) as [w1 rr] eqn:Er.
-    destruct (rollback_J _ _ _ _ _ Hc Hj Er) as [_ V1].
+    destruct (rollback_J _ _ _ _ _ Hc Hst Hj Er) as (_ & _ & V1).
     pose proof (gbase_of_frame _ _ (rollback_frame _ _ _ _ _ Er)) as Hg.
     destruct rr; inv Hs; try discriminate.
-    unfold ver_restored. rewrite Hg. destruct (g_base w) as [[[[] b] vi]|] eqn:Eg; try discriminate.
-    rewrite (V1 eq_refl b vi eq_refl), N.eqb_refl. discriminate.
+    unfold ver_restored. rewrite Hg. destruct (g_base w) as [[[b0 b] vi]|] eqn:Eg; try discriminate.
+    rewrite (V1 eq_refl b0 b vi eq_refl), N.eqb_refl. discriminate.
 Qed.
+
+Lemma reachable_IJ c f ops :
+  Inv repaired (exec repaired (init_world c f) ops) /\ J (exec repaired (init_world c f) ops).
+Proof. apply exec_IJ; [apply fixedv_repaired|apply Inv_init|apply J_init]. Qed.
 
 Lemma reachable_consistent c f ops o w' r m :
   step repaired (exec repaired (init_world c f) ops) o = (w', (r, m)) ->
   m <> MonMixed /\ step_ver o w' r <> MonMixed.
-Proof.
-  apply step_consistent; try reflexivity.
-  - apply exec_Inv; [reflexivity|apply Inv_init].
-  - apply exec_J; [reflexivity|apply J_init].
-Qed.
+Proof. destruct (reachable_IJ c f ops). apply step_consistent; auto. apply fixedv_repaired. Qed.
 
 Lemma reachable_version c f ops : let w := exec repaired (init_world c f) ops in cur w = g_inst w.
-Proof. apply (exec_J repaired eq_refl ops _ (J_init c f)). Qed.
+Proof. apply (reachable_IJ c f ops). Qed.
 
 Lemma wrong_predecessor_never_modifies c f ops T Q F pv wf :
   let w := exec repaired (init_world c f) ops in
@@ -1055,53 +1362,146 @@ Proof.
   exists pv, wf. split; [assumption|right]. unfold w in *. now rewrite reachable_version.
 Qed.
 
-Lemma rb_only_version v : v_curm_fix v = true -> forall ops w b gi,
-  rb_only ops -> J w -> g_base w = Some (true, b, gi) ->
-  forall w' r m, In (w', (r, m)) (run v w ops) -> r = RRbOk -> cur w' = gi.
+(* ---- the baseline moves only when an upgrade starts on a box that is not mid-upgrade ---- *)
+Definition base_part (w : world) := match g_base w with Some (_, b, vi) => Some (b, vi) | None => None end.
+
+Lemma after_snapshot_gbase v T F from w2 w' r : after_snapshot v T F from w2 = (w', r) -> base_part w' = base_part w2.
 Proof.
-  intros Hv. induction ops as [|o ops IH]; simpl; intros w b gi Hrb Hj Hg w' r m Hin Hr; [contradiction|].
-  inv Hrb. destruct (step v w o) as [w1 [r1 m1]] eqn:Es.
-  assert (Hnext : J w1 /\ g_base w1 = Some (true, b, gi) /\ (r1 = RRbOk -> cur w1 = gi)).
-  { destruct o as [T Q F|F| |p0 f0]; try contradiction; simpl in Es.
-    - destruct (rollback_flow v F w) as [w2 rr] eqn:Er.
-      destruct (rollback_J _ _ _ _ _ Hv Hj Er) as [J1 V1].
-      pose proof (gbase_of_frame _ _ (rollback_frame _ _ _ _ _ Er)) as Hg2.
-      destruct rr; inv Es; splits; auto; try congruence; try discriminate.
-      intros _. eapply V1; eauto.
-    - inv Es. splits; auto; try discriminate. }
-  destruct Hnext as (N1 & N2 & N3).
-  destruct Hin as [Heq|Hin]; [inv Heq; auto|eauto].
+  intros H. unfold base_part. unfold after_snapshot in H.
+  assert (P : forall wx, frame wx = frame w2 -> g_base wx = g_base w2) by (intros; now apply gbase_of_frame).
+  assert (A : forall wa, frame wa = frame w2 -> auto_rollback v F wa = (w', r) -> g_base w' = g_base w2).
+  { intros wa Hf Ha. unfold auto_rollback in Ha. destruct (crash_at F 52); [inv Ha; auto|].
+    destruct (rollback_flow v F wa) as [w1 rr] eqn:E. pose proof (rollback_frame _ _ _ _ _ E) as Hf1.
+    destruct rr; inv Ha; rewrite ?(gbase_of_frame _ _ (frame_set_phase _ _)); apply P; congruence. }
+  assert (G : g_base w' = g_base w2); [|now rewrite G].
+  destruct (crash_at F 26); [inv H; auto|].
+  destruct (t_hook_ok T); simpl in H; [|inv H; auto].
+  destruct (seq_oc _); try (inv H; apply P, frame_set_phase).
+  destruct (seq_oc _); try (inv H; apply P; now rewrite !frame_set_phase).
+  destruct (crash_at F 29); [inv H; apply P; now rewrite !frame_set_phase|].
+  destruct (swap_loop _ _) as [w7 sok] eqn:Esw.
+  apply swap_loop_frame in Esw as (F7 & _ & _). rewrite frame_set_obst, !frame_set_phase in F7.
+  destruct sok; simpl in H.
+  - unfold post_swap in H.
+    destruct (if needs_vpp (t_arts T) then vpp_seq F 0 else OGo);
+      [|apply (A _ (eq_trans (frame_set_phase _ _) F7) H)|inv H; now apply P].
+    destruct (seq_oc _); [|apply (A _ (eq_trans (frame_set_phase _ _) F7) H)|inv H; now apply P].
+    destruct (crash_at F 31); [inv H; apply P; now rewrite frame_set_phase|].
+    destruct (f_ha F); simpl in H.
+    2:{ destruct (crash_at F 53); [inv H; apply P; now rewrite frame_set_phase|].
+        apply (A _ (eq_trans (frame_set_phase _ _) (eq_trans (frame_set_phase _ _) F7)) H). }
+    destruct (crash_at F 32); [inv H; apply P; now rewrite frame_set_phase|].
+    destruct (crash_at F 35); [inv H; simpl; rewrite (gbase_of_frame _ _ (frame_set_phase _ _)); now apply P|].
+    destruct (crash_at F 33); [inv H; rewrite (gbase_of_frame _ _ (frame_set_phase _ _)); simpl;
+                               rewrite (gbase_of_frame _ _ (frame_set_phase _ _)); now apply P|].
+    destruct (crash_at F 34); inv H; unfold prune; simpl; rewrite (gbase_of_frame _ _ (frame_set_phase _ _)); simpl;
+      rewrite (gbase_of_frame _ _ (frame_set_phase _ _)); now apply P.
+  - destruct (crash_at F 51); [inv H; now apply P|]. apply (A _ (eq_trans (frame_set_phase _ _) F7) H).
 Qed.
 
-(* the complete statement for a reachable state w: whatever an admitted apply does after its snapshot
-   completed, every later rollback that reports success restores tree AND version *)
-Lemma reachable_crash_then_rollback c f ops0 T Q F w1 r1 b gi :
-  let w := exec repaired (init_world c f) ops0 in
-  apply repaired T Q F w = (w1, r1) -> admits T Q w = true ->
-  g_base w1 = Some (true, b, gi) ->
-  forall ops, rb_only ops ->
-  forall w' r m, In (w', (r, m)) (run repaired w1 ops) -> r = RRbOk ->
-  (forall a, In a (t_arts T) -> fs w' (a_path a) = fs w (a_path a)) /\ cur w' = cur w /\ cur w' = g_inst w.
+Lemma step_baseline v w o :
+  fixedv v -> Inv v w ->
+  base_part (fst (step v w o)) = base_part w \/
+  (exists T Q F, o = OpApply T Q F /\ resume w = false /\ admits T Q w = true /\
+                 base_part (fst (step v w o)) = Some (base_of w (t_arts T), cur w)).
 Proof.
-  intros w Ha Had Hg ops Hrb w' r m Hin Hr.
-  assert (Hj : J w) by (apply exec_J; [reflexivity|apply J_init]).
-  split; [eapply crash_then_rollback_restores; eauto; reflexivity|].
-  assert (Hcur : cur w' = cur w).
-  { pose proof Ha as Ha'. unfold apply in Ha'. rewrite Had in Ha'.
-    destruct (apply_flow_spec _ _ _ _ _ _ Ha' (admits_nodup _ _ _ Had)) as (_ & _ & _ & _ & P5).
-    destruct (P5 _ _ Hg) as [_ ->].
-    destruct (apply_flow_J repaired _ _ _ _ _ eq_refl Hj Ha') as [J1 _].
-    eapply (rb_only_version repaired eq_refl ops w1 b (cur w)); eauto. }
-  split; [assumption|]. rewrite Hcur. apply Hj.
+  intros (_ & _ & Hk & _) Hi. destruct o as [T Q F|F| |p f]; simpl.
+  - unfold apply. destruct (admits T Q w) eqn:Ead; [|now left].
+    destruct (apply_flow v T F w) as [w1 r1] eqn:E. simpl.
+    unfold apply_flow in E. rewrite Hk in E. simpl in E.
+    destruct (resume w) eqn:Hr.
+    + left. destruct (resume_Inv _ _ Hi Hr) as (j & base & bv & Hjr & Hg & Hs).
+      rewrite Hjr in E. destruct Hs as (d & nv & es & H1 & H2 & H3 & _). rewrite H2, H3 in E.
+      destruct (covered es (t_arts T)); [|now inv E].
+      unfold keep_flow in E. destruct (crash_at F 25); [now inv E|].
+      rewrite (after_snapshot_gbase _ _ _ _ _ _ _ E). unfold base_part.
+      rewrite (gbase_of_frame _ _ (frame_set_phase _ _)). reflexivity.
+    + right. exists T, Q, F. splits; auto.
+      unfold fresh_flow in E. rewrite Hr in E. simpl in E.
+      destruct (crash_at F 25); [now inv E|].
+      destruct (do_snapshot _ _ _ _) as [wa ok] eqn:Es.
+      pose proof Es as Es'. apply do_snapshot_spec in Es' as (_ & _ & _ & _ & _ & S6 & _).
+      destruct ok; simpl in E; [|inv E; unfold base_part; now rewrite S6].
+      destruct (crash_at F 36); simpl in E.
+      { inv E. destruct (do_snapshot_nocurm_same v (set_gfs0 (set_gbase (set_jr w (Some {| j_from := cur w; j_to := t_to T; j_phase := PStarted |}))
+                  (Some (false, base_of w (t_arts T), cur w))) (fs w) true) (cur w) (t_arts T)) as (_ & _ & _ & _ & N5 & _).
+        unfold base_part. now rewrite N5. }
+      rewrite (after_snapshot_gbase _ _ _ _ _ _ _ E). unfold base_part.
+      rewrite (gbase_of_frame _ _ (frame_set_phase _ _)). reflexivity.
+  - left. destruct (rollback_flow v F w) as [w1 rr] eqn:E.
+    pose proof (gbase_of_frame _ _ (rollback_frame _ _ _ _ _ E)) as Hg.
+    unfold base_part. destruct rr; simpl; now rewrite Hg.
+  - now left.
+  - now left.
+Qed.
+
+(* ---- liveness: a rollback without further faults succeeds ---- *)
+Definition quiet (F : faults) : Prop := f_fail F = [] /\ f_crash F = None /\ f_hr F = true /\ f_rob F = [].
+
+Lemma quiet_cmd F l : quiet F -> cmd F l = OGo /\ chk F l = OGo /\ fails F l = false.
+Proof. intros (A & B & _). unfold cmd, chk, crash_at, fails. rewrite A, B. auto. Qed.
+
+Lemma restore_loop_succeeds v d base : forall es w,
+  (forall e, In e es -> exists f, In (e_path e, f) base /\ kind_matches v (s_bak d) (e_path e) e f) ->
+  (forall p, obst w p = None) ->
+  (forall e, In e es -> fs w (e_path e) <> Some Dir) ->
+  exists w', restore_loop w d es = (w', true).
+Proof.
+  induction es as [|e r IH]; simpl; intros w Hes Hob Hnd; [eauto|].
+  destruct (Hes e (or_introl eq_refl)) as (fe & _ & Hk).
+  assert (Hnext : forall w1, obst w1 = obst w -> (forall q, q <> e_path e -> fs w1 q = fs w q) ->
+                  fs w1 (e_path e) <> Some Dir -> exists w', restore_loop w1 d r = (w', true)).
+  { intros w1 Ho Hq Hp. apply IH; [intros; apply Hes; now right|intros; now rewrite Ho|].
+    intros e0 He0. destruct (N.eq_dec (e_path e0) (e_path e)) as [->|Hne]; [assumption|].
+    rewrite (Hq _ Hne). apply Hnd. now right. }
+  destruct (e_kind e) eqn:Ek.
+  - apply Hnext; simpl; auto; [intros; now apply upd_other|rewrite upd_same; discriminate].
+  - apply Hnext; simpl; auto; [intros; now apply upd_other|rewrite upd_same; discriminate].
+  - destruct fe as [[c0 m0| |]|]; simpl in Hk; rewrite ?Ek in Hk; try discriminate; try tauto.
+    destruct Hk as [Hk1 Hk2].
+    unfold swap_artifact. rewrite Hk2, Hob. simpl.
+    destruct (fs w (e_path e)) as [[| |]|] eqn:Ef;
+      try (apply Hnext; simpl; auto; [intros; now apply upd_other|rewrite upd_same; discriminate]).
+    exfalso. apply (Hnd e (or_introl eq_refl)). exact Ef.
+Qed.
+
+Lemma rollback_can_succeed v F w base gi :
+  fixedv v -> Inv v w -> J w -> quiet F ->
+  g_base w = Some (true, base, gi) ->
+  (forall p, obst w p = None) ->
+  (forall p f, In (p, f) base -> fs w p <> Some Dir) ->
+  exists w', rollback_flow v F w = (w', RbOk).
+Proof.
+  intros (_ & _ & _ & Hst) Hi Hj Hq Hg Hob Hnd.
+  unfold Inv in Hi. rewrite Hg in Hi. destruct Hi as (fr & d & nv & es & H1 & H2 & H3 & [E1 _] & _).
+  destruct Hj as (_ & _ & J3). rewrite Hg in J3. destruct J3 as (_ & _ & Hs). simpl in Hs.
+  unfold rollback_flow. destruct (jr w) as [j|] eqn:Ej; [|discriminate]. simpl in H1. inv H1.
+  unfold started in Hs. rewrite Ej in Hs. rewrite Hs, andb_false_r, H2, H3.
+  assert (Hc : forall l, cmd F l = OGo /\ chk F l = OGo /\ fails F l = false) by (intros; now apply quiet_cmd).
+  assert (S1 : seq_oc [chk F 41; cmd F 11; chk F 42; cmd F 12; chk F 43]%N = OGo).
+  { unfold seq_oc. destruct (Hc 41%N) as (_ & -> & _). destruct (Hc 11%N) as (-> & _ & _).
+    destruct (Hc 42%N) as (_ & -> & _). destruct (Hc 12%N) as (-> & _ & _). destruct (Hc 43%N) as (_ & -> & _). reflexivity. }
+  rewrite S1. destruct Hq as (_ & _ & Hhr & Hrob). rewrite Hrob. unfold install_ob.
+  destruct (restore_loop_succeeds v d base (rev es) (set_obst w (obst w))) as [w2 Hr].
+  - intros e He. apply E1. now apply in_rev.
+  - exact Hob.
+  - intros e He. simpl. destruct (E1 e (proj2 (in_rev _ _) He)) as (f & Hin & _). eapply Hnd; eauto.
+  - rewrite Hr. simpl.
+    assert (Sv : (if nv then vpp_seq F 10 else OGo) = OGo).
+    { destruct nv; [|reflexivity]. unfold vpp_seq, seq_oc.
+      destruct (Hc (10 + 3)%N) as (-> & _ & _). destruct (Hc (10 + 4)%N) as (-> & _ & _).
+      destruct (Hc (10 + 5)%N) as (-> & _ & _). destruct (Hc (10 + 6)%N) as (_ & _ & ->).
+      destruct (Hc (10 + 7)%N) as (-> & _ & _). reflexivity. }
+    rewrite Sv.
+    assert (S2 : seq_oc [chk F 44; cmd F 18; chk F 45]%N = OGo).
+    { unfold seq_oc. destruct (Hc 44%N) as (_ & -> & _). destruct (Hc 18%N) as (-> & _ & _).
+      destruct (Hc 45%N) as (_ & -> & _). reflexivity. }
+    rewrite S2, Hhr. eauto.
 Qed.
 
 (* ================================================================== resolved content
    K: while no operator edit happened since the journal's upgrade began, the tree differs from the
    tree at that time (ghost g_fs0) at most on the artifact paths of that upgrade. *)
-Definition kx (w : world) := (g_fs0 w, g_clean w).
-
-Lemma kx_of_frame w w' : frame w' = frame w -> kx w' = kx w.
-Proof. unfold frame, kx. intros H. injection H as _ _ _ _ -> ->. reflexivity. Qed.
 
 Lemma swap_artifact_other w src p m w' b :
   swap_artifact w src p m = (w', b) -> forall q, q <> p -> fs w' q = fs w q.
@@ -1148,6 +1548,7 @@ Lemma rollback_other v F w w' r ps :
 Proof.
   unfold rollback_flow. intros H Hs q Hq.
   destruct (jr w) as [j|] eqn:Ej; [|now inv H].
+  destruct (v_stale_fix v && phase_started (j_phase j)); [now inv H|].
   destruct (snaps w (j_from j)) as [d|] eqn:Ed; [|now inv H].
   destruct (s_meta d) as [[nv es]|] eqn:Em; [|now inv H].
   destruct (seq_oc _); try (now inv H).
@@ -1218,29 +1619,14 @@ Proof.
   apply in_map_iff. exists a. auto.
 Qed.
 
-Lemma apply_flow_other v T F w w' r :
-  apply_flow v T F w = (w', r) ->
-  (forall q, ~ In q (map a_path (t_arts T)) -> fs w' q = fs w q) /\ kx w' = (fs w, true).
+Lemma after_snapshot_other v T F from w2 w' r ps :
+  after_snapshot v T F from w2 = (w', r) -> rb_scope w2 ps -> (forall a, In a (t_arts T) -> In (a_path a) ps) ->
+  (forall q, ~ In q ps -> fs w' q = fs w2 q) /\ kx w' = kx w2.
 Proof.
-  unfold apply_flow. intros H.
-  set (w0 := set_gfs0 _ _ _) in H.
-  destruct (crash_at F 25); [inv H; split; [reflexivity|reflexivity]|].
-  destruct (do_snapshot v w0 (cur w) (t_arts T)) as [w1 ok] eqn:Es.
-  pose proof Es as Es'. apply do_snapshot_spec in Es' as (S1 & S2 & _ & _ & _ & _ & _).
-  assert (K1 : kx w1 = (fs w, true)).
-  { unfold do_snapshot in Es. destruct (snap_loop _ _ _ _) as [b [l|]]; inv Es; reflexivity. }
-  destruct ok; simpl in H; [|inv H; split; [intros; now rewrite S2|assumption]].
-  destruct (do_snapshot_scope _ _ _ _ _ Es) as (d & nv & es & D1 & D2 & D3).
-  set (w2 := set_phase (set_gbase w1 _) PSnapshotDone) in H.
-  assert (Hfs2 : fs w2 = fs w) by (unfold w2; rewrite fs_set_phase; simpl; exact S2).
-  assert (K2 : kx w2 = (fs w, true)).
-  { unfold w2. rewrite <- K1. unfold kx, set_phase. simpl. destruct (jr w1); reflexivity. }
-  assert (Sc2 : rb_scope w2 (map a_path (t_arts T))).
-  { unfold rb_scope, w2, set_phase. simpl. rewrite S1. simpl. intros k d0 nv0 es0 Hk Hd Hm e He.
-    inv Hk. rewrite D1 in Hd. inv Hd. rewrite D2 in Hm. inv Hm. now apply D3. }
+  unfold after_snapshot. intros H Sc2 Hps.
   assert (Hexit : forall wx, frame wx = frame w2 -> fs wx = fs w2 ->
-     (forall q, ~ In q (map a_path (t_arts T)) -> fs wx q = fs w q) /\ kx wx = (fs w, true)).
-  { intros wx Hf Hx. split; [intros; now rewrite Hx, Hfs2|]. rewrite (kx_of_frame _ _ Hf). exact K2. }
+     (forall q, ~ In q ps -> fs wx q = fs w2 q) /\ kx wx = kx w2).
+  { intros wx Hf Hx. split; [intros; now rewrite Hx|now apply kx_of_frame]. }
   destruct (crash_at F 26); [inv H; now apply Hexit|].
   destruct (t_hook_ok T); simpl in H; [|inv H; now apply Hexit].
   destruct (seq_oc _); try (inv H; apply Hexit; [apply frame_set_phase|apply fs_set_phase]).
@@ -1249,19 +1635,61 @@ Proof.
   destruct (swap_loop _ _) as [w7 sok] eqn:Esw.
   pose proof (swap_loop_other _ _ _ _ Esw) as O7. simpl in O7. rewrite !fs_set_phase in O7.
   apply swap_loop_frame in Esw as (F7 & _ & _). rewrite frame_set_obst, !frame_set_phase in F7.
-  assert (Sc7 : rb_scope w7 (map a_path (t_arts T))).
-  { eapply rb_scope_frame4; [|exact Sc2]. now apply frame_frame4. }
-  assert (K7 : kx w7 = (fs w, true)) by (rewrite (kx_of_frame _ _ F7); exact K2).
-  assert (O7' : forall q, ~ In q (map a_path (t_arts T)) -> fs w7 q = fs w q).
-  { intros q Hq. rewrite (O7 q Hq). now rewrite Hfs2. }
+  assert (Sc7 : rb_scope w7 ps) by (eapply rb_scope_frame4; [|exact Sc2]; now apply frame_frame4).
+  assert (K7 : kx w7 = kx w2) by now apply kx_of_frame.
+  assert (O7' : forall q, ~ In q ps -> fs w7 q = fs w2 q).
+  { intros q Hq. apply O7. intros Hin. apply Hq. apply in_map_iff in Hin as (a & <- & Ha). now apply Hps. }
   destruct sok; simpl in H.
   - destruct (post_swap_other _ _ _ _ _ _ _ _ H Sc7) as [P1 P2].
-    split; [intros q Hq; rewrite (P1 q Hq); auto|]. now rewrite P2.
+    split; [intros q Hq; rewrite (P1 q Hq); auto|congruence].
   - destruct (crash_at F 51); [inv H; auto|].
-    destruct (auto_rollback_other _ _ _ _ _ (map a_path (t_arts T)) H) as [A1 A2].
+    destruct (auto_rollback_other _ _ _ _ _ ps H) as [A1 A2].
     { eapply rb_scope_frame4; [|exact Sc7]. apply frame_frame4, frame_set_phase. }
     split; [intros q Hq; rewrite (A1 q Hq), fs_set_phase; auto|].
     rewrite A2. rewrite <- K7. apply kx_of_frame, frame_set_phase.
+Qed.
+
+Lemma fresh_flow_other v T F w w' r :
+  fresh_flow v T F w = (w', r) -> resume w = false ->
+  (forall q, ~ In q (map a_path (t_arts T)) -> fs w' q = fs w q) /\ kx w' = (fs w, true).
+Proof.
+  unfold fresh_flow. intros H Hres. rewrite Hres in H. simpl in H.
+  set (w0 := set_gfs0 _ _ _) in H.
+  destruct (crash_at F 25); [inv H; split; [reflexivity|reflexivity]|].
+  destruct (do_snapshot v w0 (cur w) (t_arts T)) as [w1 ok] eqn:Es.
+  pose proof Es as Es'. apply do_snapshot_spec in Es' as (S1 & S2 & _ & _ & _ & _ & _).
+  assert (K1 : kx w1 = (fs w, true)).
+  { unfold do_snapshot in Es. destruct (snap_loop _ _ _ _) as [b [l|]]; inv Es; reflexivity. }
+  destruct ok; simpl in H; [|inv H; split; [intros; now rewrite S2|assumption]].
+  destruct (crash_at F 36); simpl in H.
+  { inv H. destruct (do_snapshot_nocurm_same v w0 (cur w) (t_arts T)) as (_ & N2 & _ & _ & _ & N6).
+    split; [intros; now rewrite N2|]. rewrite N6. reflexivity. }
+  destruct (do_snapshot_scope _ _ _ _ _ Es) as (d & nv & es & D1 & D2 & D3).
+  set (w2 := set_phase (set_gbase w1 _) PSnapshotDone) in H.
+  assert (Hfs2 : fs w2 = fs w) by (unfold w2; rewrite fs_set_phase; simpl; exact S2).
+  assert (K2 : kx w2 = (fs w, true)).
+  { unfold w2. rewrite <- K1. unfold kx, set_phase. simpl. destruct (jr w1); reflexivity. }
+  assert (Sc2 : rb_scope w2 (map a_path (t_arts T))).
+  { unfold rb_scope, w2, set_phase. simpl. rewrite S1. simpl. intros k d0 nv0 es0 Hk Hd Hm e He.
+    inv Hk. rewrite D1 in Hd. inv Hd. rewrite D2 in Hm. inv Hm. now apply D3. }
+  destruct (after_snapshot_other _ _ _ _ _ _ _ _ H Sc2) as [A1 A2]; [intros; now apply in_map|].
+  split; [intros q Hq; rewrite (A1 q Hq); now rewrite Hfs2|congruence].
+Qed.
+
+Lemma keep_flow_other v T F w w' r j d nv es ps :
+  keep_flow v T F w j d nv es = (w', r) -> jr w = Some j ->
+  (forall e, In e es -> In (e_path e) ps) -> (forall a, In a (t_arts T) -> In (a_path a) ps) ->
+  (forall q, ~ In q ps -> fs w' q = fs w q) /\ kx w' = kx w.
+Proof.
+  unfold keep_flow. intros H Hj Hes Hps.
+  destruct (crash_at F 25); [inv H; auto|].
+  set (w2 := set_phase _ PSnapshotDone) in H.
+  assert (Sc2 : rb_scope w2 ps).
+  { unfold rb_scope, w2, set_phase. simpl. intros k d0 nv0 es0 Hk Hd Hm e He.
+    inv Hk. rewrite upd_same in Hd. inv Hd. simpl in Hm. inv Hm. now apply Hes. }
+  destruct (after_snapshot_other _ _ _ _ _ _ _ _ H Sc2 Hps) as [A1 A2].
+  split; [intros q Hq; rewrite (A1 q Hq); unfold w2; now rewrite fs_set_phase|].
+  rewrite A2. unfold w2. rewrite (kx_of_frame _ _ (frame_set_phase _ _)). reflexivity.
 Qed.
 
 Definition K (w : world) : Prop :=
@@ -1280,19 +1708,38 @@ Proof.
   destruct (E1 e He) as (f & Hin & _). apply in_map_iff. exists (e_path e, f). auto.
 Qed.
 
-Lemma step_K v w o : Inv v w -> K w -> K (fst (step v w o)).
+Lemma snap_ok_entry_paths v w base fr : snap_ok v w base fr ->
+  exists d nv es, option_map j_from (jr w) = Some fr /\ snaps w fr = Some d /\ s_meta d = Some (nv, es) /\
+                  forall e, In e es -> In (e_path e) (map fst base).
 Proof.
-  intros Hi Hk. destruct o as [T Q F|F| |p f]; simpl.
-  - destruct (apply v T Q F w) as [w1 r1] eqn:Ea. simpl. unfold apply in Ea.
+  intros (d & nv & es & H1 & H2 & H3 & [E1 _] & _). exists d, nv, es. splits; auto.
+  intros e He. destruct (E1 e He) as (f & Hin & _). apply in_map_iff. exists (e_path e, f). auto.
+Qed.
+
+Lemma step_K v w o : fixedv v -> Inv v w -> K w -> K (fst (step v w o)).
+Proof.
+  intros (_ & _ & Hkf & Hst) Hi Hk. destruct o as [T Q F|F| |p f]; simpl.
+  - destruct (apply v T Q F w) as [w1 r1] eqn:Ea. simpl. pose proof Ea as Ea0. unfold apply in Ea.
     destruct (admits T Q w) eqn:Ead; [|inv Ea; exact Hk].
-    destruct (apply_flow_other _ _ _ _ _ _ Ea) as [O1 O2].
-    destruct (apply_flow_spec _ _ _ _ _ _ Ea (admits_nodup _ _ _ Ead)) as (_ & _ & _ & _ & P5).
-    unfold K. destruct (g_base w1) as [[[[] b] gi]|] eqn:Eg; auto.
-    destruct (P5 _ _ eq_refl) as [-> _]. unfold kx in O2. injection O2 as -> _. intros _.
-    assert (Hm : map fst (base_of w (t_arts T)) = map a_path (t_arts T)).
-    { unfold base_of. rewrite map_map. reflexivity. }
-    rewrite Hm. split; [exact O1|].
-    intros p f Hin. unfold base_of in Hin. apply in_map_iff in Hin as (a & Ea' & _). now inv Ea'.
+    destruct (apply_flow_spec _ _ _ _ _ _ Hkf Hi Ea (admits_nodup _ _ _ Ead)) as (_ & _ & _ & _ & P5).
+    unfold apply_flow in Ea. rewrite Hkf in Ea. simpl in Ea. unfold baseline_of in P5.
+    destruct (resume w) eqn:Hr.
+    + destruct (resume_Inv _ _ Hi Hr) as (j & base & bv & Hjr & Hg & Hs). rewrite Hg in P5. simpl in P5.
+      rewrite Hjr in Ea. destruct (snap_ok_entry_paths _ _ _ _ Hs) as (d & nv & es & H1 & H2 & H3 & H4).
+      rewrite H2, H3 in Ea. destruct (covered es (t_arts T)) eqn:Hc; [|inv Ea; exact Hk].
+      destruct (keep_flow_other _ _ _ _ _ _ _ _ _ _ (map fst base) Ea Hjr H4) as [O1 O2].
+      { intros a Ha. destruct (proj1 (in_map_iff _ _ _) (covered_paths _ _ Hc a Ha)) as (e & <- & He). now apply H4. }
+      unfold K. destruct (g_base w1) as [[[[] b] gi]|] eqn:Eg; auto.
+      destruct (P5 _ _ eq_refl) as [-> ->]. unfold kx in O2. injection O2 as -> ->.
+      unfold K in Hk. rewrite Hg in Hk. intros Hc'. destruct (Hk Hc') as [K1 K2]. split; [|exact K2].
+      intros q Hq. rewrite (O1 q Hq). now apply K1.
+    + simpl in P5. destruct (fresh_flow_other _ _ _ _ _ _ Ea Hr) as [O1 O2].
+      unfold K. destruct (g_base w1) as [[[[] b] gi]|] eqn:Eg; auto.
+      destruct (P5 _ _ eq_refl) as [-> _]. unfold kx in O2. injection O2 as -> _. intros _.
+      assert (Hm : map fst (base_of w (t_arts T)) = map a_path (t_arts T)).
+      { unfold base_of. rewrite map_map. reflexivity. }
+      rewrite Hm. split; [exact O1|].
+      intros p f Hin. unfold base_of in Hin. apply in_map_iff in Hin as (a & Ea' & _). now inv Ea'.
   - destruct (rollback_flow v F w) as [w1 rr] eqn:Er.
     assert (K w1).
     { pose proof (rollback_frame _ _ _ _ _ Er) as Hf.
@@ -1309,12 +1756,12 @@ Qed.
 Lemma K_init c f : K (init_world c f).
 Proof. exact I. Qed.
 
-Lemma exec_IK v : v_mode_fix v = true -> forall ops w, Inv v w -> K w ->
+Lemma exec_IK v : fixedv v -> forall ops w, Inv v w -> K w ->
   Inv v (exec v w ops) /\ K (exec v w ops).
 Proof.
-  intros Hv. induction ops as [|o ops IH]; simpl; intros w Hi Hk; [auto|].
+  intros Hx. induction ops as [|o ops IH]; simpl; intros w Hi Hk; [auto|].
   apply IH; [|now apply step_K].
-  destruct (step v w o) as [w1 [r1 m1]] eqn:Es. simpl. now destruct (step_spec _ _ _ _ _ _ Es Hi Hv).
+  destruct (step v w o) as [w1 [r1 m1]] eqn:Es. simpl. now destruct (step_spec _ _ _ _ _ _ Hx Es Hi).
 Qed.
 
 Lemma resolve_ext f g : (forall q, f q = g q) -> forall n p, resolve f p n = resolve g p n.
@@ -1348,72 +1795,51 @@ Proof.
 Qed.
 
 Lemma step_resolved v w o w' r m :
-  v_mode_fix v = true -> Inv v w -> K w -> step v w o = (w', (r, m)) -> step_res o w' r <> MonMixed.
+  fixedv v -> Inv v w -> K w -> step v w o = (w', (r, m)) -> step_res o w' r <> MonMixed.
 Proof.
-  intros Hv Hi Hk Hs.
-  assert (Hk' : K w') by (pose proof (step_K v w o Hi Hk) as X; now rewrite Hs in X).
+  intros Hx Hi Hk Hs. pose proof Hx as (Hv & _ & Hkf & Hst).
+  assert (Hk' : K w') by (pose proof (step_K v w o Hx Hi Hk) as X; now rewrite Hs in X).
   destruct o as [T Q F|F| |p f]; simpl in *; try discriminate.
   - destruct (apply v T Q F w) as [w1 r1] eqn:Ea. inv Hs. destruct r; try discriminate.
-    unfold apply in Ea. destruct (admits T Q w) eqn:Ead; [|discriminate].
-    destruct (apply_flow_spec _ _ _ _ _ _ Ea (admits_nodup _ _ _ Ead)) as (_ & _ & P3 & _).
-    destruct (P3 eq_refl) as (Q1 & Q2 & _).
+    destruct (apply_spec _ _ _ _ _ _ _ Hkf Ea Hi) as (_ & I2 & I3).
+    destruct (admits T Q w) eqn:Ead; [|destruct (I2 eq_refl); discriminate].
+    destruct (I3 eq_refl) as (_ & _ & P3 & _). destruct (P3 eq_refl) as (Q1 & Q2 & _).
     eapply mon_resolved_ok; eauto. intros p f Hin. rewrite (Q2 p f Hin). now apply normf_fixed.
   - destruct (rollback_flow v F w) as [w1 rr] eqn:Er.
-    destruct (rollback_step_spec _ _ _ _ _ Er Hi Hv) as (_ & R2 & R3).
+    destruct (rollback_step_spec _ _ _ _ _ Er Hi Hv Hst) as (_ & R2 & R3).
     destruct rr; inv Hs; try discriminate.
-    destruct (g_base w) as [[[[] b] gi]|] eqn:Eg.
-    + destruct (R3 eq_refl) as [_ R4]. eapply mon_resolved_ok; [exact R2|assumption|]. eapply R4; reflexivity.
-    + unfold mon_resolved. rewrite R2. discriminate.
-    + unfold mon_resolved. rewrite R2. discriminate.
+    destruct (R3 eq_refl) as (base & gi & Hg & Hr).
+    eapply mon_resolved_ok; [rewrite R2; exact Hg|assumption|exact Hr].
 Qed.
 
 Lemma reachable_resolved c f ops o w' r m :
   step repaired (exec repaired (init_world c f) ops) o = (w', (r, m)) -> step_res o w' r <> MonMixed.
 Proof.
-  destruct (exec_IK repaired eq_refl ops _ (Inv_init repaired c f) (K_init c f)) as [Hi Hk].
-  now apply (step_resolved repaired _ o w' r m eq_refl Hi Hk).
+  destruct (exec_IK repaired fixedv_repaired ops _ (Inv_init repaired c f) (K_init c f)) as [Hi Hk].
+  now apply (step_resolved repaired _ o w' r m fixedv_repaired Hi Hk).
 Qed.
 
-(* rollback attempts only: the whole tree, hence what every path resolves to, is back *)
-Lemma rb_only_K v : forall ops w, rb_only ops -> Inv v w -> K w -> v_mode_fix v = true ->
-  forall w' out, In (w', out) (run v w ops) -> K w' /\ kx w' = kx w /\ g_base w' = g_base w.
+(* ---- "can be rolled back": from every reachable state in which an upgrade's snapshot completed, once the
+   obstacles are gone, a rollback without further faults reports success, and it restores tree and version ---- *)
+Lemma reachable_rollback_succeeds c f ops F base gi :
+  let w := exec repaired (init_world c f) ops in
+  g_base w = Some (true, base, gi) -> quiet F ->
+  (forall p f0, In (p, f0) base -> fs w p <> Some Dir) ->
+  exists w' m, step repaired (fst (step repaired w OpClear)) (OpRollback F) = (w', (RRbOk, m)) /\
+               (forall p f0, In (p, f0) base -> fs w' p = f0) /\ cur w' = gi /\ m = MonOk.
 Proof.
-  induction ops as [|o ops IH]; simpl; intros w Hrb Hi Hk Hv w' out Hin; [contradiction|].
-  inv Hrb. destruct (step v w o) as [w1 [r1 m1]] eqn:Es.
-  assert (N : Inv v w1 /\ K w1 /\ kx w1 = kx w /\ g_base w1 = g_base w).
-  { split; [now destruct (step_spec _ _ _ _ _ _ Es Hi Hv)|].
-    split; [pose proof (step_K v w o Hi Hk) as X; now rewrite Es in X|].
-    destruct o as [T Q F|F| |p0 f0]; try contradiction; simpl in Es.
-    - destruct (rollback_flow v F w) as [w2 rr] eqn:Er.
-      pose proof (rollback_frame _ _ _ _ _ Er) as Hf.
-      destruct rr; inv Es; split; try (now apply kx_of_frame); now apply gbase_of_frame.
-    - inv Es. auto. }
-  destruct N as (N1 & N2 & N3 & N4).
-  destruct Hin as [Heq|Hin]; [inv Heq; auto|].
-  destruct (IH w1 H2 N1 N2 Hv w' out Hin) as (A & B & C). splits; auto; congruence.
+  intros w Hg Hq Hnd. destruct (reachable_IJ c f ops) as [Hi Hj]. fold w in Hi, Hj.
+  set (wc := fst (step repaired w OpClear)).
+  assert (Hic : Inv repaired wc) by (eapply Inv_frame; [|left|exact Hi]; reflexivity).
+  assert (Hjc : J wc) by (apply (J_core w); auto).
+  assert (Hgc : g_base wc = Some (true, base, gi)) by exact Hg.
+  destruct (rollback_can_succeed repaired F wc base gi fixedv_repaired Hic Hjc Hq Hgc) as [w' Hr];
+    [reflexivity|exact Hnd|].
+  destruct (rollback_step_spec _ _ _ _ _ Hr Hic eq_refl eq_refl) as (_ & R2 & R3).
+  destruct (R3 eq_refl) as (b' & gi' & Hg' & Hrest). rewrite Hgc in Hg'. inv Hg'.
+  destruct (rollback_J repaired _ _ _ _ eq_refl eq_refl Hjc Hr) as (_ & _ & V).
+  exists w', (mon_restored w'). simpl. rewrite Hr. splits; auto.
+  - eapply V; eauto.
+  - eapply mon_restored_ok; [rewrite R2; exact Hgc|exact Hrest].
 Qed.
 
-Lemma crash_then_rollback_resolved c f ops0 T Q F w1 r1 b gi :
-  let w := exec repaired (init_world c f) ops0 in
-  apply repaired T Q F w = (w1, r1) -> admits T Q w = true ->
-  g_base w1 = Some (true, b, gi) ->
-  forall ops, rb_only ops ->
-  forall w' r m, In (w', (r, m)) (run repaired w1 ops) -> r = RRbOk ->
-  (forall q, fs w' q = fs w q) /\ (forall p n, resolve (fs w') p n = resolve (fs w) p n).
-Proof.
-  intros w Ha Had Hg ops Hrb w' r m Hin Hr.
-  destruct (exec_IK repaired eq_refl ops0 _ (Inv_init repaired c f) (K_init c f)) as [Hi Hk]. fold w in Hi, Hk.
-  pose proof Ha as Ha'. unfold apply in Ha'. rewrite Had in Ha'.
-  destruct (apply_flow_spec _ _ _ _ _ _ Ha' (admits_nodup _ _ _ Had)) as (I1 & _ & _ & _ & P5).
-  destruct (P5 _ _ Hg) as [-> _].
-  destruct (apply_flow_other _ _ _ _ _ _ Ha') as [_ O2].
-  assert (K1 : K w1).
-  { pose proof (step_K repaired w (OpApply T Q F) Hi Hk) as X. simpl in X. now rewrite Ha in X. }
-  destruct (rb_only_K repaired ops w1 Hrb I1 K1 eq_refl w' (r, m) Hin) as (Kw' & Kx & Gb).
-  assert (Hall : forall q, fs w' q = fs w q).
-  { rewrite O2 in Kx. unfold kx in Kx. injection Kx as E1 E2.
-    intros q. rewrite <- E1.
-    apply (restored_whole_tree w' (base_of w (t_arts T)) gi); auto; [congruence|].
-    eapply (rb_only_restores repaired eq_refl ops w1 _ gi Hrb I1 Hg w' r m Hin Hr). }
-  split; [exact Hall|]. intros p n. now apply resolve_ext.
-Qed.
